@@ -569,6 +569,7 @@ Lemma sa_pre s0 f0 st plogs nticks st4 :
     (∀ b fh4 k, f_hosts st4 !! b = Some fh4 → is_Some (fh_reps fh4 !! k) → ∃ fh, f_hosts st !! b = Some fh ∧ is_Some (fh_reps fh !! k)) ∧
     (∀ b, is_Some (f_hosts st4 !! b) ↔ is_Some (f_hosts st !! b)) ∧
     (∀ b, is_Some (d_hosts (f_db st4) !! b) → is_Some (f_hosts st !! b)) ∧
+    (∀ s f, L s f → mem_tick st4 s f = mem_tick st s f) ∧
     (∀ a q, nonout st4 a q → f_hosts st4 !! a = None ∧ nonout st a q).
 Proof.
   intros HA Hpl Httl. pose proof (sa_k _ _ _ HA) as HK. destruct (lo_b _ _ HK) as (HI & HP & Hoh). unfold pre_schedule. set (t := d_tick (f_db st)).
@@ -750,6 +751,16 @@ Proof.
     destruct (Hreps1 b fh1 Hfh1) as (fh & Hfh & Hr). exists fh. by rewrite <- Hr. }
   split; [exact Hdom4|]. split.
   { intros b Hb. rewrite Hdb in Hb. cbn [set_tick d_hosts] in Hb. destruct (Hkeys b Hb) as [Hinb|Hold]; [by apply host_addrs_elem|by apply (lo_dbhosts _ _ HK)]. }
+  split.
+  { intros s f Hlf. unfold mem_tick. rewrite Hview4.
+    destruct (rec_of (d_view (f_db st1)) s f) as [n1|] eqn:Hr1.
+    - pose proof Hr1 as Hr1'. apply rec_of_Some in Hr1' as (c1 & Hc1 & Hn1). destruct (Hclass s c1 f n1 Hc1 Hn1) as (n0 & Hn0 & [[? _]|[_ Htkn]]); [done|]. by rewrite Hn0.
+    - destruct (rec_of (d_view (f_db st)) s f) as [n0|] eqn:Hr0; [|done]. exfalso.
+      apply rec_of_Some in Hr0 as (c0 & Hc0 & Hk0). destruct (ml_viewdef _ _ _ HP s) as [_ [h Hh]]; [by eexists|].
+      destruct (Hv1 s h c0 Hh Hc0) as (c1 & Hc1 & _ & Hkeep & _).
+      destruct (current_same_keys st1 st s h c1 c0 f HI1 HI ltac:(done) ltac:(by rewrite Hhi1) Hc1 Hc0) as [n1 Hn1];
+        [apply Hkeep; by apply (lo_cur _ _ HK s)|by apply (lo_cur _ _ HK s)|by eexists|].
+      assert (rec_of (d_view (f_db st1)) s f = Some n1) by (apply rec_of_Some; eauto). congruence. }
   (* nothing is pending for a NodeHost *)
   intros a q Hq.
   assert (Hq1 : nonout st1 a q ∧ f_hosts st4 !! a = None).
@@ -793,14 +804,15 @@ Theorem lost_stage_add_applied s0 f0 st st' plogs nticks o :
   healthy_round P plogs nticks o st = Some st' →
   ∃ b, o = OBatch b ∧ StageB s0 f0 st' ∧
     d_tick (f_db st') = d_tick (f_db st) + N.of_nat nticks * p_step P ∧
-    (length (hist_of (f_hist st) s0) < length (hist_of (f_hist st') s0))%nat.
+    (length (hist_of (f_hist st) s0) < length (hist_of (f_hist st') s0))%nat ∧
+    mem_tick st' s0 f0 = mem_tick st s0 f0.
 Proof.
   intros HA Hpl Httl Hsp Hnc Hfr Hr. pose proof (sa_k _ _ _ HA) as HK. destruct (lo_b _ _ HK) as (HI & HP & Hoh).
   assert (Hne : o ≠ OError).
   { apply (round_no_error P st st' plogs nticks o HI); [|done|done|done]. intros a fh Ha. by destruct (ml_hosts _ _ _ HP a fh Ha). }
   rewrite healthy_round_pre in Hr. destruct (pre_schedule P plogs nticks st) as [st4|] eqn:Epre; [|done].
   destruct (sa_pre s0 f0 st plogs nticks st4 HA Hpl ltac:(lia) Epre) as
-    (e0 & hs0 & x & tt & Hh0 & Hh4 & Hxn & Hoth4 & HX4 & HR4 & Hcur4 & Hstamp4 & Htick4 & Hsh4 & Hrun4 & Hkeys4 & Hdom4 & Hdbh4 & Hnoh4).
+    (e0 & hs0 & x & tt & Hh0 & Hh4 & Hxn & Hoth4 & HX4 & HR4 & Hcur4 & Hstamp4 & Htick4 & Hsh4 & Hrun4 & Hkeys4 & Hdom4 & Hdbh4 & Hmt4 & Hnoh4).
   specialize (Hfr st4 eq_refl).
   destruct (fstep P st4 (ESchedule o)) as [st5| |] eqn:E5; try done. injection Hr as <-.
   destruct HX4 as [(HI4 & HP4 & Hoh4) Hnc4].
@@ -877,7 +889,7 @@ Proof.
       rewrite lookup_insert_ne; [done|]. intros ->. congruence.
     - exists h. by rewrite Ehi, (Hoth4 s Hs). }
   split; [|split; [rewrite Ed; cbn [set_requests d_tick]; exact Htick4|]].
-  2:{ rewrite Hhof5. unfold hist_of. rewrite Hh0. cbn. lia. }
+  2:{ split; [rewrite Hhof5; unfold hist_of; rewrite Hh0; cbn; lia|]. unfold mem_tick. rewrite Hview5. exact (Hmt4 s0 f0 (sa_lost _ _ _ HA)). }
   split.
   - split; [exact HI5|]. split.
     + destruct HP4. split; try rewrite Ed; try rewrite Eh; try rewrite Ehi; cbn [set_requests d_tick d_shards d_view d_kill]; try done.
@@ -1530,7 +1542,7 @@ Theorem lost_stage_join s0 f0 st st' plogs nticks o :
   (∀ st4, pre_schedule P plogs nticks st = Some st4 → fresh_ok st4 (ESchedule o)) →
   healthy_round P plogs nticks o st = Some st' →
   ∃ b x t, o = OBatch b ∧ StageC s0 f0 x t st' ∧ f_hist st' = f_hist st ∧
-    d_tick (f_db st') = d_tick (f_db st) + N.of_nat nticks * p_step P.
+    d_tick (f_db st') = d_tick (f_db st) + N.of_nat nticks * p_step P ∧ mem_tick st' s0 f0 = mem_tick st s0 f0.
 Proof.
   intros HB Hpl Httl Hsp Hnc Hfr Hr. pose proof (sb_b _ _ _ _ HB) as HLB. pose proof HLB as (HI & HP & Hoh).
   assert (Hin : inert st) by (intros a q Hq; exact (sb_pend _ _ _ _ HB a q Hq)).
@@ -1623,6 +1635,17 @@ Proof.
       destruct (Hrec4 s0 x nx Hrec) as [(n0 & Hn0 & _)|(_ & _ & Htn)]; [congruence|]. rewrite (Htn Hxno) in Ht. lia.
     - exfalso. destruct (sb_single _ _ _ _ HB _ _ Hl0) as [_ ->]. destruct Hf0in as [? ?]. congruence. }
   destruct Hnxw as [Hnx0 Hnxf].
+  assert (Hmt4 : mem_tick st4 s0 f0 = mem_tick st s0 f0).
+  { assert (is_Some (s_reps c4 !! f0)) as [nf Hnf].
+    { rewrite <- (fmap_is_Some r_addr), <- lookup_fmap, HM4. unfold h0. cbn [cur_members snd]. rewrite lookup_insert_ne; [done|]. intros ->. destruct Hf0in; congruence. }
+    assert (Hrecf : rec_of (d_view (f_db st4)) s0 f0 = Some nf) by (apply rec_of_Some; eauto).
+    unfold mem_tick. rewrite Hrecf.
+    destruct (Hrec4 s0 f0 nf Hrecf) as [(n1 & Hn1 & _ & [[(a & fh & Hfh & Hro) _]|[_ Htn]])|([Hnone|Hnc0] & _ & Htn)].
+    - exfalso. unfold runs_on in Hro. by rewrite (sb_nodata _ _ _ _ HB s0 f0 (sb_lost _ _ _ _ HB) a fh Hfh) in Hro.
+    - by rewrite Hn1.
+    - rewrite Hnone. apply Htn. intros a fh Hfh. unfold runs_on. by rewrite (sb_nodata _ _ _ _ HB s0 f0 (sb_lost _ _ _ _ HB) a fh Hfh).
+    - exfalso. specialize (Hnc0 h0 Hh0). unfold h0 in Hnc0. cbn [cur_members snd] in Hnc0.
+      rewrite lookup_insert_ne in Hnc0; [destruct Hf0in; congruence|]. intros ->. destruct Hf0in; congruence. }
   assert (Hc4e : c4 ∈ entries C) by (unfold entries, C, ctx_of_db; cbn [c_view]; apply elem_of_mvals; by exists s0).
   assert (Hnxwait : nx ∈ sr_wait P C c4).
   { apply elem_sr_wait. split; [apply elem_of_mvals; by exists x|]. unfold replica_waiting, replica_failed. rewrite Hnx0. cbn.
@@ -1684,7 +1707,7 @@ Proof.
       destruct Hreq as (y & Hy & Hd). left; right; right. split; [unfold is_kill; by rewrite Ety|]. exists y. split; [done|].
       intros h Hh. by destruct (Hd h Hh).
     - right. rewrite Ehi. split; [done|]. split; [done|]. split; [done|]. by rewrite Hra. }
-  split; [|split; [congruence|rewrite Ed; cbn [set_requests d_tick]; exact Htick4]].
+  split; [|split; [congruence|split; [rewrite Ed; cbn [set_requests d_tick]; exact Htick4|unfold mem_tick; rewrite Hview5; exact Hmt4]]].
   assert (Hmem_eq : ∀ s rid a, member st5 s rid a ↔ member st s rid a).
   { intros s rid a. unfold member. by rewrite Ehi, Hhi4. }
   split.
@@ -1742,7 +1765,7 @@ Theorem lost_stage_join_started s0 f0 x tt st st' plogs nticks o :
   (∀ st4, pre_schedule P plogs nticks st = Some st4 → fresh_ok st4 (ESchedule o)) →
   healthy_round P plogs nticks o st = Some st' →
   ∃ b, o = OBatch b ∧ StageD s0 f0 x tt st' ∧ f_hist st' = f_hist st ∧
-    d_tick (f_db st') = d_tick (f_db st) + N.of_nat nticks * p_step P.
+    d_tick (f_db st') = d_tick (f_db st) + N.of_nat nticks * p_step P ∧ mem_tick st' s0 f0 = mem_tick st s0 f0.
 Proof.
   intros HB Hpl Httl Hsp Hnc Hfr Hr. pose proof (sc_b _ _ _ _ _ HB) as HLB. pose proof HLB as (HI & HP & Hoh).
   assert (Hin : jinert s0 x st) by (intros a q Hq; exact (sc_pend _ _ _ _ _ HB a q Hq)).
@@ -1825,6 +1848,17 @@ Proof.
     - congruence.
     - specialize (Hnc0 h0 Hh0). unfold h0 in Hnc0. cbn [cur_members snd] in Hnc0. by rewrite lookup_insert in Hnc0. }
   destruct Hnxw as [Hnx0 Hnxf].
+  assert (Hmt4 : mem_tick st4 s0 f0 = mem_tick st s0 f0).
+  { assert (is_Some (s_reps c4 !! f0)) as [nf Hnf].
+    { rewrite <- (fmap_is_Some r_addr), <- lookup_fmap, HM4. unfold h0. cbn [cur_members snd]. rewrite lookup_insert_ne; [done|]. intros ->. destruct Hf0in; congruence. }
+    assert (Hrecf : rec_of (d_view (f_db st4)) s0 f0 = Some nf) by (apply rec_of_Some; eauto).
+    unfold mem_tick. rewrite Hrecf.
+    destruct (Hrec4 s0 f0 nf Hrecf) as [(n1 & Hn1 & _ & [[(a & fh & Hfh & Hro) _]|[_ Htn]])|([Hnone|Hnc0] & _ & Htn)].
+    - exfalso. unfold runs_on in Hro. by rewrite (sc_nodata _ _ _ _ _ HB s0 f0 (sc_lost _ _ _ _ _ HB) a fh Hfh) in Hro.
+    - by rewrite Hn1.
+    - rewrite Hnone. apply Htn. intros a fh Hfh. unfold runs_on. by rewrite (sc_nodata _ _ _ _ _ HB s0 f0 (sc_lost _ _ _ _ _ HB) a fh Hfh).
+    - exfalso. specialize (Hnc0 h0 Hh0). unfold h0 in Hnc0. cbn [cur_members snd] in Hnc0.
+      rewrite lookup_insert_ne in Hnc0; [destruct Hf0in; congruence|]. intros ->. destruct Hf0in; congruence. }
   (* what the batch consists of *)
   assert (Hkinds : ∀ q, q ∈ b → is_kill q = true ∨
             (good_join (f_hist st4) (q_raft q) q ∧ q_shard q = s0 ∧ q_inst q = x ∧ q_raft q = tt)).
@@ -1879,7 +1913,7 @@ Proof.
       destruct Hreq as (y & Hy & Hd). left; right; right. split; [unfold is_kill; by rewrite Ety|]. exists y. split; [done|].
       intros h Hh. by destruct (Hd h Hh).
     - right. rewrite Ehi. split; [done|]. split; [done|]. split; [done|]. by rewrite Hra. }
-  split; [|split; [congruence|rewrite Ed; cbn [set_requests d_tick]; exact Htick4]].
+  split; [|split; [congruence|split; [rewrite Ed; cbn [set_requests d_tick]; exact Htick4|unfold mem_tick; rewrite Hview5; exact Hmt4]]].
   assert (Hmem_eq : ∀ s rid a, member st5 s rid a ↔ member st s rid a).
   { intros s rid a. unfold member. by rewrite Ehi, Hhi4. }
   split.
@@ -1916,14 +1950,14 @@ Qed.
 
 (* the state after the round in which the new member has reported: the view shows one member more than the shard
    definition asks for, one of them (the lost one) failed - the DELETE of the lost member is pending, live *)
-Definition pendD (s0 : N) (st : fstate) (a : N) (q : request) : Prop :=
+Definition pendD (s0 f0 : N) (st : fstate) (a : N) (q : request) : Prop :=
   pendI st a q ∨
-  (is_delete q = true ∧ q_shard q = s0 ∧ lchange (nonout st) (f_hosts st) (f_hist st) a q ∧ vready (f_db st) q).
+  (is_delete q = true ∧ q_shard q = s0 ∧ q_members q = [f0] ∧ lchange (nonout st) (f_hosts st) (f_hist st) a q ∧ vready (f_db st) q).
 
 Record StageE (s0 f0 x t : N) (st : fstate) : Prop := mkStageE {
   se_b : LostB L st;
   se_cur : all_current st;
-  se_pend : ∀ a q, nonout st a q → pendD s0 st a q;
+  se_pend : ∀ a q, nonout st a q → pendD s0 f0 st a q;
   se_live : ∃ a q m, nonout st a q ∧ is_delete q = true ∧ q_shard q = s0 ∧ q_members q = [f0] ∧
               lchange (nonout st) (f_hosts st) (f_hist st) a q ∧ member st s0 m a ∧ ¬ L s0 m;
   se_single : ∀ s f, L s f → s = s0 ∧ f = f0;
@@ -2108,7 +2142,7 @@ Proof.
     - exists c4. rewrite Hview5, Hs. split; [done|]. split; [done|]. intros rid n Hn. by apply (Hstamp4 s0 c4 rid n).
     - done.
     - exists rm. split; [exists h0; rewrite Ehi, Hra; done|]. intros Hlm. by destruct (sd_single _ _ _ _ _ HB _ _ Hlm) as [_ ?]. }
-  assert (Hall : ∀ a q, nonout st5 a q → pendD s0 st5 a q).
+  assert (Hall : ∀ a q, nonout st5 a q → pendD s0 f0 st5 a q).
   { intros a q Hq. destruct (Hsplit a q Hq) as [Hq4|[Hqb <-]].
     { left. unfold pendI. rewrite Ehi, Eh. split.
       - destruct (Hin4 a q Hq4) as [[Hm _]|(Hg & _)]; [done|by right; left].
@@ -2119,13 +2153,13 @@ Proof.
       destruct (li_reqs _ _ _ _ _ HI5 q Hbox) as [_ Hreq]. unfold is_kill in Hk. destruct (q_type q) eqn:Ety; try done.
       destruct Hreq as (y & Hy & Hdd). left; right; right. split; [unfold is_kill; by rewrite Ety|]. exists y. split; [done|].
       intros h Hh. by destruct (Hdd h Hh).
-    - right. destruct (Hdel2 q Hqb Hd) as (? & ? & _). done. }
+    - right. destruct (Hdel2 q Hqb Hd) as (? & ? & ? & _). done. }
   split; [|split; [congruence|rewrite Ed; cbn [set_requests d_tick]; exact Htick4]].
   split.
   - split; [exact HI5|]. split.
     + destruct HP4. split; try rewrite Ed; try rewrite Eh; try rewrite Ehi; cbn [set_requests d_tick d_shards d_view d_kill]; try done.
       all: try (rewrite Ed in Hto5; exact Hto5).
-      intros a q Hq. destruct (Hall a q Hq) as [[Hm _]|(_ & _ & Hl0 & Hv)].
+      intros a q Hq. destruct (Hall a q Hq) as [[Hm _]|(_ & _ & _ & Hl0 & Hv)].
       * left. rewrite Ehi in Hm. split; [done|]. rewrite <- Ehi. by apply (nonout_qextra st5 a q).
       * right. rewrite Eh, Ehi in Hl0. rewrite Ed in Hv. done.
     + intros a Ha. rewrite Eh. apply Hoh4. rewrite Ed in Ha. exact Ha.
@@ -2163,3 +2197,798 @@ Qed.
 
 
 End StageB.
+
+(** * stage (d): the DELETE of the lost member is applied *)
+Section StageDel.
+Variable L : N → N → Prop.
+Variable P : params.
+Hypothesis Ldec : ∀ s rid, L s rid ∨ ¬ L s rid.
+
+(* what is pending: CREATE requests are restores, ADD requests are stale, DELETE requests are stale or remove f0 from s0 *)
+Definition pkindsD (s0 f0 : N) (B : N → request → Prop) (hist : gmap N (list hentry)) : Prop :=
+  ∀ a q, B a q → (is_create q = true → is_restore q = true) ∧
+                 (is_add q = true → q_ccid q ≠ cur_version (hist_of hist (q_shard q))) ∧
+                 (is_delete q = true → (q_shard q = s0 ∧ ∃ ms, q_members q = f0 :: ms) ∨ q_ccid q ≠ cur_version (hist_of hist (q_shard q))).
+
+Lemma sd_exec_req s0 f0 (B : N → request → Prop) d seen hosts hist h q qs x' :
+  LI d hosts hist seen (q :: qs) → MendL L B (mkF d hosts hist seen) → nocreate B (mkF d hosts hist seen) →
+  cleanx (hosts, hist) → pkindsD s0 f0 B hist → (∀ a fh, hosts !! a = Some fh → fh_reps fh !! (s0, f0) = None) →
+  B h q → is_Some (hosts !! h) → exec_req h true (hosts, hist) q = Some x' →
+  MendL L B (mkF d x'.1 x'.2 seen) ∧ nocreate B (mkF d x'.1 x'.2 seen) ∧ cleanx x' ∧ pkindsD s0 f0 B x'.2 ∧
+  (∀ s, s ≠ s0 → x'.2 !! s = hist !! s) ∧
+  (∀ a fh k lr, hosts !! a = Some fh → fh_reps fh !! k = Some lr →
+     ∃ fh' lr', x'.1 !! a = Some fh' ∧ fh_reps fh' !! k = Some lr' ∧ (lr_running lr = true → lr_running lr' = true)) ∧
+  (∀ a fh' k, x'.1 !! a = Some fh' → is_Some (fh_reps fh' !! k) → ∃ fh, hosts !! a = Some fh ∧ is_Some (fh_reps fh !! k)) ∧
+  (hist_of x'.2 s0 = hist_of hist s0 ∨
+   ∃ (e0 : hentry) (hs0 : list hentry), hist_of hist s0 = e0 :: hs0 ∧ hist_of x'.2 s0 = ((e0.1 + 1, delete f0 e0.2) : hentry) :: e0 :: hs0).
+Proof.
+  intros HI HP Hnc Hcl Hpk Hnd HB Hh E.
+  destruct (ml_exec_req L B d seen hosts hist h q qs x' HI HP Hnc HB Hh E) as [HP' Hnc'].
+  destruct (Hpk h q HB) as (Hcr & Hadl & Hdl).
+  (* the history: unchanged, or the DELETE of f0 has been applied for s0 *)
+  assert (Hhist : x'.2 = hist ∨ ∃ (e0 : hentry) hs0, q_shard q = s0 ∧ hist !! s0 = Some (e0 :: hs0) ∧
+            x'.2 = <[s0 := (e0.1 + 1, delete f0 e0.2) :: e0 :: hs0]> hist).
+  { destruct (exec_req_hist_cases h true (hosts, hist) q x' E) as [?|[(e0 & hs0 & rid & t & ms & ts & Ety & _ & _ & Eh & Hf & _ & Hx2)|(e0 & hs0 & rid & ms & Ety & Hmm & Eh & Hf & Hx2)]]; cbn [snd] in *.
+    - by left.
+    - exfalso. apply Hadl; [unfold is_add; by rewrite Ety|]. by rewrite Eh.
+    - right. destruct (Hdl ltac:(unfold is_delete; by rewrite Ety)) as [(Hs & ms' & Hmm')|Hst]; [|rewrite Eh in Hst; done].
+      rewrite Hmm in Hmm'. injection Hmm' as -> _. exists e0, hs0. split; [done|]. rewrite Hs in Eh, Hx2. split; [|done].
+      unfold hist_of in Eh. destruct (hist !! s0) as [h0|]; cbn in Eh; [by rewrite Eh|done]. }
+  assert (Hnew : ∀ a fh' k, x'.1 !! a = Some fh' → is_Some (fh_reps fh' !! k) → ∃ fh, hosts !! a = Some fh ∧ is_Some (fh_reps fh !! k)).
+  { apply (exec_req_nonew h true (hosts, hist) q x' E Hcr). }
+  split; [done|]. split; [done|]. split.
+  { intros a fh' k Ha Hk. destruct (Hnew a fh' k Ha Hk) as (fh & Hfh & Hk0). destruct (Hcl a fh k Hfh Hk0) as (h0 & Hh0 & Hm0). cbn [snd] in Hh0.
+    destruct Hhist as [->|(e0 & hs0 & _ & Hs & ->)]; [by exists h0|].
+    destruct (decide (k.1 = s0)) as [Heq|Hne].
+    - rewrite Heq in Hh0. assert (h0 = e0 :: hs0) as -> by congruence. exists ((e0.1 + 1, delete f0 e0.2) :: e0 :: hs0). cbn [snd]. rewrite Heq, lookup_insert. split; [done|].
+      cbn [cur_members snd] in *. rewrite lookup_delete_ne; [done|]. intros Hf0. destruct k as [k1 k2]. cbn in Heq, Hf0. subst k1 k2.
+      rewrite (Hnd a fh Hfh) in Hk0. by destruct Hk0.
+    - exists h0. cbn [snd]. rewrite lookup_insert_ne by done. done. }
+  split.
+  { (* the pending requests after the step *)
+    intros a0 q0 HB0. destruct (Hpk a0 q0 HB0) as (Hc0 & Ha0 & Hd0). split; [done|].
+    destruct Hhist as [->|(e0 & hs0 & Hqs0 & Hs & ->)]; [done|].
+    assert (Hle : is_change q0 = true → q_shard q0 = s0 → q_ccid q0 ≠ cur_version (hist_of hist (q_shard q0)) → q_ccid q0 ≠ e0.1 + 1).
+    { intros Hch Heq Hst. destruct (ml_boxes _ _ _ HP a0 q0 HB0) as [[_ [Hqx _]]|[(_ & Hfen & _) _]]; [|done].
+      specialize (Hqx Hch (e0 :: hs0)). cbn [f_hist] in Hqx. rewrite Heq in Hqx. specialize (Hqx Hs). cbn in Hqx. lia. }
+    split.
+    - intros Hia. destruct (decide (q_shard q0 = s0)) as [Heq|Hne].
+      + unfold hist_of at 1. rewrite Heq, lookup_insert. cbn [default from_option id cur_version fst]. apply Hle; [unfold is_change; by rewrite Hia|done|by apply Ha0].
+      + unfold hist_of. rewrite lookup_insert_ne by done. by apply Ha0.
+    - intros Hd. destruct (Hd0 Hd) as [?|Hst]; [by left|]. destruct (decide (q_shard q0 = s0)) as [Heq|Hne].
+      + right. unfold hist_of at 1. rewrite Heq, lookup_insert. cbn [default from_option id cur_version fst]. apply Hle; [unfold is_change; by rewrite Hd, orb_true_r|done|done].
+      + right. unfold hist_of. rewrite lookup_insert_ne by done. exact Hst. }
+  split.
+  { intros s Hs0. destruct Hhist as [->|(e0 & hs0 & Hqs0 & _ & ->)]; [done|]. rewrite lookup_insert_ne; [done|congruence]. }
+  split; [|split; [exact Hnew|]].
+  2:{ destruct Hhist as [->|(e0 & hs0 & _ & Hs & ->)]; [by left|]. right. exists e0, hs0. unfold hist_of. rewrite Hs, lookup_insert. done. }
+  (* every replica stays *)
+  apply (exec_req_mono h (hosts, hist) q x' E).
+  - intros Hk y ms fh lr Hy Hfh Hkk. exfalso.
+    destruct (ml_boxes _ _ _ HP h q HB) as [[Hm _]|[(Hch & _) _]]; [|by rewrite (kill_not_change q Hk) in Hch].
+    destruct Hm as [[(Hres & _)|[(Hch & _)|(_ & y' & Hy' & Hd)]]|[(Hc & _)|(Hres & _)]].
+    + unfold is_restore, is_create in Hres. unfold is_kill in Hk. by destruct (q_type q).
+    + by rewrite (kill_not_change q Hk) in Hch.
+    + cbn [fst] in Hfh. destruct (Hcl h fh (q_shard q, y) Hfh ltac:(by eexists)) as (h0 & Hh0 & Hm0). cbn [fst snd f_hist] in *.
+      rewrite Hy in Hy'. injection Hy' as <-. specialize (Hd h0 Hh0). apply is_member_false in Hd. rewrite Hd in Hm0. by destruct Hm0.
+    + unfold is_create in Hc. unfold is_kill in Hk. by destruct (q_type q).
+    + unfold is_restore, is_create in Hres. unfold is_kill in Hk. by destruct (q_type q).
+  - intros Hd. destruct (Hdl Hd) as [(Hs & ms' & Hmm')|Hst]; [|by left]. right. intros y ms fh Hy Hfh. cbn [fst] in Hfh.
+    rewrite Hmm' in Hy. injection Hy as <- _. rewrite Hs. by apply (Hnd h fh).
+Qed.
+
+Lemma del_applies h x q x' s0 (e0 : hentry) hs0 y ms fh rid lr :
+  exec_req h true x q = Some x' → q_type q = RDelete → q_shard q = s0 → q_members q = y :: ms →
+  hist_of x.2 s0 = e0 :: hs0 → q_ccid q = e0.1 → is_member e0.2 y = true →
+  x.1 !! h = Some fh → fh_reps fh !! (s0, rid) = Some lr → lr_running lr = true → is_member e0.2 rid = true →
+  quorum_running x.1 s0 e0.2 = true →
+  hist_of x'.2 s0 = (e0.1 + 1, delete y e0.2) :: e0 :: hs0.
+Proof.
+  intros E Ety Hs Hm Hh Hf Hu Hfh Hk Hr Hmem Hq. unfold exec_req in E. rewrite Hfh, Ety, Hm, Hs, Hh in E.
+  assert (Hcc : cc_ready true x.1 (fh_reps fh) s0 e0.1 e0.2 (q_ccid q) = true).
+  { unfold cc_ready. rewrite Hq, Hf, N.eqb_refl. cbn [andb]. rewrite !andb_true_r. apply existsb_exists. exists rid. split; [|done].
+    apply elem_of_list_In, running_of_elem. by exists lr. }
+  rewrite Hcc, Hu in E. cbn [negb andb] in E. injection E as <-. cbn [snd]. unfold hist_of. by rewrite lookup_insert.
+Qed.
+
+(* the history of s0 is extended, and the first new entry - if any - records the removal of f0 *)
+Definition dchain (f0 : N) (h h' : list hentry) : Prop :=
+  h' = h ∨ ∃ (e0 : hentry) (hs0 l : list hentry), h = e0 :: hs0 ∧ h' = l ++ ((e0.1 + 1, delete f0 e0.2) : hentry) :: e0 :: hs0.
+Lemma dchain_refl f0 h : dchain f0 h h.
+Proof. by left. Qed.
+Lemma dchain_trans f0 h1 h2 h3 : dchain f0 h1 h2 → dchain f0 h2 h3 → dchain f0 h1 h3.
+Proof.
+  intros [->|(e0 & hs0 & l & -> & ->)] H23; [done|]. destruct H23 as [->|(e1 & hs1 & l1 & He & ->)]; [right; by exists e0, hs0, l|].
+  right. exists e0, hs0, (l1 ++ ((e1.1 + 1, delete f0 e1.2) : hentry) :: l). rewrite <- app_assoc. cbn [app]. by rewrite <- He.
+Qed.
+Lemma dchain_one f0 (h h' : list hentry) :
+  (h' = h ∨ ∃ (e0 : hentry) (hs0 : list hentry), h = e0 :: hs0 ∧ h' = ((e0.1 + 1, delete f0 e0.2) : hentry) :: e0 :: hs0) → dchain f0 h h'.
+Proof. intros [->|(e0 & hs0 & -> & ->)]; [by left|]. right. by exists e0, hs0, []. Qed.
+
+(* the DELETE that will be applied: fence current, f0 a member, proposed on the NodeHost of a member that is not lost *)
+Definition gooddel (s0 f0 : N) (h0 : list hentry) (h : N) (q : request) : Prop :=
+  q_type q = RDelete ∧ q_shard q = s0 ∧
+  ∃ ms (e0 : hentry) hs0, q_members q = f0 :: ms ∧ h0 = e0 :: hs0 ∧ q_ccid q = e0.1 ∧ is_Some (e0.2 !! f0) ∧
+    (∃ rid, cur_members h0 !! rid = Some h ∧ ¬ L s0 rid) ∧ (3 ≤ size e0.2)%nat ∧ (∀ r1 r2, L s0 r1 → L s0 r2 → r1 = r2).
+
+Record SDx (B : N → request → Prop) (d : db) (seen : gset N) (s0 f0 : N) (h0 : list hentry) (x : xstate) : Prop := mkSDx {
+  dx_ml : MendL L B (mkF d x.1 x.2 seen);
+  dx_nc : nocreate B (mkF d x.1 x.2 seen);
+  dx_cl : cleanx x;
+  dx_pk : pkindsD s0 f0 B x.2;
+  dx_ext : ∃ l, hist_of x.2 s0 = l ++ h0;
+  dx_gr : grun L s0 h0 x;
+  dx_nd : ∀ a fh, x.1 !! a = Some fh → fh_reps fh !! (s0, f0) = None }.
+
+Lemma sd_exec_one (B : N → request → Prop) d seen s0 f0 h0 h q qs x x' :
+  LI d x.1 x.2 seen (q :: qs) → SDx B d seen s0 f0 h0 x → B h q → is_Some (x.1 !! h) → exec_req h true x q = Some x' →
+  SDx B d seen s0 f0 h0 x' ∧
+  (∀ a fh k lr, x.1 !! a = Some fh → fh_reps fh !! k = Some lr →
+     ∃ fh' lr', x'.1 !! a = Some fh' ∧ fh_reps fh' !! k = Some lr' ∧ (lr_running lr = true → lr_running lr' = true)) ∧
+  (∀ a fh' k, x'.1 !! a = Some fh' → is_Some (fh_reps fh' !! k) → ∃ fh, x.1 !! a = Some fh ∧ is_Some (fh_reps fh !! k)) ∧
+  (length (hist_of x.2 s0) ≤ length (hist_of x'.2 s0))%nat ∧ (∀ s, s ≠ s0 → x'.2 !! s = x.2 !! s) ∧
+  (gooddel s0 f0 h0 h q → hist_of x.2 s0 = h0 → (length h0 < length (hist_of x'.2 s0))%nat) ∧
+  dchain f0 (hist_of x.2 s0) (hist_of x'.2 s0).
+Proof.
+  destruct x as [hosts hist]. cbn [fst snd]. intros HI HS HB Hh E.
+  destruct (sd_exec_req s0 f0 B d seen hosts hist h q qs x' HI (dx_ml _ _ _ _ _ _ _ HS) (dx_nc _ _ _ _ _ _ _ HS) (dx_cl _ _ _ _ _ _ _ HS) (dx_pk _ _ _ _ _ _ _ HS) (dx_nd _ _ _ _ _ _ _ HS) HB Hh E)
+    as (HP' & Hnc' & Hcl' & Hpk' & Hoth & Hmono & Hnew & Hd1).
+  destruct (exec_req_hist h true (hosts, hist) q x' E s0) as [l1 Hl1]. cbn [snd] in Hl1.
+  destruct (dx_ext _ _ _ _ _ _ _ HS) as [l0 Hl0]. cbn [snd] in Hl0.
+  assert (Hlen : (length (hist_of hist s0) ≤ length (hist_of x'.2 s0))%nat) by (rewrite Hl1, app_length; lia).
+  split; [split|].
+  - exact HP'.
+  - exact Hnc'.
+  - exact Hcl'.
+  - exact Hpk'.
+  - exists (l1 ++ l0). by rewrite Hl1, Hl0, app_assoc.
+  - intros Hh' rid a Hm HnL.
+    assert (Hh0 : hist_of hist s0 = h0).
+    { rewrite Hl1, Hl0 in Hh'. apply (f_equal length) in Hh'. rewrite !app_length in Hh'. assert (l1 = []) as -> by (destruct l1; [done|cbn in Hh'; lia]).
+      assert (l0 = []) as -> by (destruct l0; [done|cbn in Hh'; lia]). done. }
+    pose proof (dx_gr _ _ _ _ _ _ _ HS Hh0 rid a Hm HnL) as Hr. cbn [fst] in Hr. unfold member_running in Hr |- *.
+    destruct (hosts !! a) as [fh|] eqn:Ha; [|done]. apply andb_true_iff in Hr as [_ Hr].
+    destruct (fh_reps fh !! (s0, rid)) as [lr|] eqn:Ek; [|done]. destruct (Hmono a fh (s0, rid) lr Ha Ek) as (fh' & lr' & Hfh' & Hk' & Hrr).
+    rewrite Hfh', Hk'. destruct (ml_hosts _ _ _ HP' a fh' Hfh') as [-> _]. cbn. by apply Hrr.
+  - intros a fh' Hfh'. destruct (fh_reps fh' !! (s0, f0)) as [lr|] eqn:Ek; [|done]. exfalso.
+    destruct (Hnew a fh' (s0, f0) Hfh' ltac:(by eexists)) as (fh & Hfh & [lr0 Hk0]). by rewrite (dx_nd _ _ _ _ _ _ _ HS a fh Hfh) in Hk0.
+  - split; [exact Hmono|]. split; [exact Hnew|]. split; [exact Hlen|]. split; [exact Hoth|]. split; [|by apply dchain_one].
+    intros (Ety & Hs & ms & e0 & hs0 & Hmm & -> & Hf & Hu & (rid & Hrid & HnL) & H3 & Hone) Hh0.
+    pose proof (dx_gr _ _ _ _ _ _ _ HS Hh0 rid h Hrid HnL) as Hr. cbn [fst] in Hr. unfold member_running in Hr.
+    destruct (hosts !! h) as [fh|] eqn:Hfh; [|done]. apply andb_true_iff in Hr as [_ Hr].
+    destruct (fh_reps fh !! (s0, rid)) as [lr|] eqn:Ek; [|done].
+    pose proof (grun_quorum L Ldec s0 e0 hs0 (hosts, hist) (dx_gr _ _ _ _ _ _ _ HS) Hh0 Hone H3) as Hq.
+    rewrite (del_applies h (hosts, hist) q x' s0 e0 hs0 f0 ms fh rid lr E Ety Hs Hmm Hh0 Hf ltac:(apply is_member_true; exact Hu) Hfh Ek Hr ltac:(apply is_member_true; by eexists) Hq).
+    cbn [length]. lia.
+Qed.
+
+Lemma sd_exec_all (B : N → request → Prop) d seen s0 f0 h0 h qs : ∀ x x',
+  LI d x.1 x.2 seen qs → SDx B d seen s0 f0 h0 x → (∀ q, q ∈ qs → B h q) → is_Some (x.1 !! h) → exec_all h true x qs = Some x' →
+  LI d x'.1 x'.2 seen [] ∧ SDx B d seen s0 f0 h0 x' ∧
+  (∀ a fh k lr, x.1 !! a = Some fh → fh_reps fh !! k = Some lr →
+     ∃ fh' lr', x'.1 !! a = Some fh' ∧ fh_reps fh' !! k = Some lr' ∧ (lr_running lr = true → lr_running lr' = true)) ∧
+  (∀ a fh' k, x'.1 !! a = Some fh' → is_Some (fh_reps fh' !! k) → ∃ fh, x.1 !! a = Some fh ∧ is_Some (fh_reps fh !! k)) ∧
+  (length (hist_of x.2 s0) ≤ length (hist_of x'.2 s0))%nat ∧ (∀ s, s ≠ s0 → x'.2 !! s = x.2 !! s) ∧
+  ((∃ q, q ∈ qs ∧ gooddel s0 f0 h0 h q) → (length h0 < length (hist_of x'.2 s0))%nat) ∧
+  dchain f0 (hist_of x.2 s0) (hist_of x'.2 s0).
+Proof.
+  induction qs as [|q qs IH]; intros x x' HI HS HB Hh E; cbn [exec_all] in E.
+  { injection E as <-. split; [done|]. split; [done|]. split; [intros a fh k lr Ha Hk; by exists fh, lr|]. split; [intros a fh' k Ha Hk; by exists fh'|].
+    split; [done|]. split; [done|]. split; [|apply dchain_refl]. intros (q & Hq & _). by apply elem_of_nil in Hq. }
+  destruct (exec_req h true x q) as [x1|] eqn:E1; [|done].
+  destruct (sd_exec_one B d seen s0 f0 h0 h q qs x x1 HI HS (HB q ltac:(left)) Hh E1) as (HS1 & Hm1 & Hn1 & Hl1 & Ho1 & Hap1 & Hdc1).
+  assert (HI1 : LI d x1.1 x1.2 seen qs) by (destruct x as [hosts hist]; apply (exec_req_inv _ _ _ _ _ _ _ _ _ HI E1)).
+  assert (Hh1 : is_Some (x1.1 !! h)) by (destruct (exec_req_keys h true x q x1 E1) as [Hdom _]; by apply Hdom).
+  destruct (IH x1 x' HI1 HS1 ltac:(intros q0 Hq0; apply HB; by right) Hh1 E) as (HI' & HS' & Hm2 & Hn2 & Hl2 & Ho2 & Hap2 & Hdc2).
+  split; [done|]. split; [done|]. split; [|split; [|split; [lia|split; [intros s Hs; rewrite (Ho2 s Hs); by apply Ho1|]]]].
+  - intros a fh k lr Ha Hk. destruct (Hm1 a fh k lr Ha Hk) as (fh1 & lr1 & Hfh1 & Hk1 & Hr1). destruct (Hm2 a fh1 k lr1 Hfh1 Hk1) as (fh2 & lr2 & ? & ? & Hr2).
+    exists fh2, lr2. split; [done|]. split; [done|]. intros Hr. by apply Hr2, Hr1.
+  - intros a fh' k Ha Hk. destruct (Hn2 a fh' k Ha Hk) as (fh1 & Hfh1 & Hk1). by apply (Hn1 a fh1 k).
+  - split; [|by apply (dchain_trans f0 _ _ _ Hdc1 Hdc2)]. intros (q0 & Hq0 & Hg). destruct (dx_ext _ _ _ _ _ _ _ HS) as [l0 Hl0].
+    destruct l0 as [|e l0]; [|rewrite Hl0, app_length in Hl1; cbn [length] in Hl1; lia].
+    cbn [app] in Hl0. apply elem_of_cons in Hq0 as [->|Hq0]; [specialize (Hap1 Hg Hl0); lia|]. apply Hap2. by exists q0.
+Qed.
+
+(* the invariant of the execution phase, on fleet states *)
+Definition SDs (s0 f0 : N) (h0 : list hentry) (st : fstate) : Prop :=
+  LoopInv st ∧ SDx (nonout st) (f_db st) (f_seen st) s0 f0 h0 (f_hosts st, f_hist st) ∧ out_hosts st.
+
+Lemma sd_exec_event s0 f0 h0 st a st' :
+  SDs s0 f0 h0 st → fstep P st (EExec a true) = FOk st' →
+  SDs s0 f0 h0 st' ∧ f_db st' = f_db st ∧
+  (∀ b fh k lr, f_hosts st !! b = Some fh → fh_reps fh !! k = Some lr →
+     ∃ fh' lr', f_hosts st' !! b = Some fh' ∧ fh_reps fh' !! k = Some lr' ∧ (lr_running lr = true → lr_running lr' = true)) ∧
+  (∀ b fh' k, f_hosts st' !! b = Some fh' → is_Some (fh_reps fh' !! k) → ∃ fh, f_hosts st !! b = Some fh ∧ is_Some (fh_reps fh !! k)) ∧
+  (∀ b, match f_hosts st !! b with
+        | Some fh => ∃ fh', f_hosts st' !! b = Some fh' ∧ fh_queue fh' = (if decide (b = a) then [] else fh_queue fh)
+        | None => f_hosts st' !! b = None end) ∧
+  (length (hist_of (f_hist st) s0) ≤ length (hist_of (f_hist st') s0))%nat ∧ (∀ s, s ≠ s0 → f_hist st' !! s = f_hist st !! s) ∧
+  ((∃ fh q, f_hosts st !! a = Some fh ∧ q ∈ fh_queue fh ∧ gooddel s0 f0 h0 a q) → (length h0 < length (hist_of (f_hist st') s0))%nat) ∧
+  dchain f0 (hist_of (f_hist st) s0) (hist_of (f_hist st') s0).
+Proof.
+  destruct st as [d hosts hist seen]. intros (HI & HS & Hoh). cbn [fstep f_db f_hosts f_hist f_seen] in *.
+  destruct (hosts !! a) as [fh|] eqn:Ha; [|done]. destruct (ml_hosts _ _ _ (dx_ml _ _ _ _ _ _ _ HS) a fh Ha) as [Hup Hout]. cbn [f_hosts] in Hup. rewrite Hup.
+  set (hosts0 := <[a := mkFHost true (fh_region fh) (fh_reps fh) [] (fh_out fh)]> hosts).
+  destruct (exec_all a true (hosts0, hist) (fh_queue fh)) as [x|] eqn:Ex; [|done]. intros [= <-].
+  set (st := mkF d hosts hist seen) in *.
+  pose proof (exec_start st a fh HI Ha) as HI0. cbn [f_db f_hosts f_hist f_seen st] in HI0. fold hosts0 in HI0.
+  assert (Hsame : ∀ b, match hosts !! b with
+        | Some fhb => ∃ fh', hosts0 !! b = Some fh' ∧ fh_reps fh' = fh_reps fhb ∧ fh_up fh' = true ∧ fh_out fh' = None
+        | None => hosts0 !! b = None end).
+  { intros b. unfold hosts0. destruct (decide (b = a)) as [->|Hne].
+    - rewrite Ha, lookup_insert. eexists. split; [done|]. cbn. done.
+    - rewrite lookup_insert_ne by done. destruct (hosts !! b) as [fhb|] eqn:Hb; [|done]. exists fhb. split; [done|]. split; [done|].
+      apply (ml_hosts _ _ _ (dx_ml _ _ _ _ _ _ _ HS) b fhb Hb). }
+  assert (Hback : ∀ b fh', hosts0 !! b = Some fh' → ∃ fhb, hosts !! b = Some fhb ∧ fh_reps fh' = fh_reps fhb).
+  { intros b fh' Hb. specialize (Hsame b). destruct (hosts !! b) as [fhb|]; [|congruence]. destruct Hsame as (fh2 & H2 & Hr & _). exists fhb. split; [done|]. congruence. }
+  assert (HS0 : SDx (nonout st) d seen s0 f0 h0 (hosts0, hist)).
+  { destruct HS. cbn [fst snd] in *. split; cbn [fst snd]; try done.
+    - by apply (ml_same_reps L _ d hosts hosts0 hist seen).
+    - intros b fh' k Hb Hk. destruct (Hback b fh' Hb) as (fhb & Hfhb & Hr). rewrite Hr in Hk. by apply (dx_cl0 b fhb k).
+    - intros Hh rid b Hm HnL. specialize (dx_gr0 Hh rid b Hm HnL). cbn [fst] in *. unfold member_running in *. specialize (Hsame b).
+      destruct (hosts !! b) as [fhb|]; [|done]. destruct Hsame as (fh2 & -> & -> & -> & _). apply andb_true_iff in dx_gr0 as [_ ?]. done.
+    - intros b fh' Hb. destruct (Hback b fh' Hb) as (fhb & Hfhb & Hr). rewrite Hr. by apply (dx_nd0 b fhb). }
+  destruct (sd_exec_all (nonout st) d seen s0 f0 h0 a (fh_queue fh) (hosts0, hist) x HI0 HS0) as (HI' & HS' & Hmono & Hnew & Hlen & Hoth & Happ & Hdc); [| |done|].
+  { intros q Hq. right. exists fh. done. }
+  { cbn. unfold hosts0. rewrite lookup_insert. by eexists. }
+  pose proof (exec_all_frame a true (fh_queue fh) (hosts0, hist) x Ex) as Hfr. cbn [fst] in Hfr.
+  assert (Hq : ∀ b, match hosts !! b with
+        | Some fhb => ∃ fh', x.1 !! b = Some fh' ∧ fh_queue fh' = (if decide (b = a) then [] else fh_queue fhb)
+        | None => x.1 !! b = None end).
+  { intros b. specialize (Hfr b). unfold hosts0 in Hfr. destruct (decide (b = a)) as [->|Hne].
+    - rewrite lookup_insert in Hfr. rewrite Ha. destruct Hfr as (fh2 & Hfh2 & Hq2 & _). by exists fh2.
+    - rewrite lookup_insert_ne in Hfr by done. destruct (hosts !! b) as [fhb|]; [|done]. destruct Hfr as (fh2 & Hfh2 & Hq2 & _). by exists fh2. }
+  assert (Hsub : ∀ b q, nonout (mkF d x.1 x.2 seen) b q → nonout st b q).
+  { intros b q [Hq0|(fh' & Hb & Hin)]; [by left|]. cbn [f_hosts] in Hb. specialize (Hq b).
+    destruct (hosts !! b) as [fhb|] eqn:Hbb; [|congruence]. destruct Hq as (fh2 & Hfh2 & Hq2). assert (fh2 = fh') as -> by congruence.
+    rewrite Hq2 in Hin. destruct (decide (b = a)); [by apply elem_of_nil in Hin|]. right. by exists fhb. }
+  cbn [fst snd] in *.
+  split; [|split; [done|]].
+  { split; [exact HI'|]. split.
+    - destruct HS'. cbn [fst snd f_db f_seen f_hosts f_hist] in *. split; cbn [fst snd]; try done.
+      + by apply (ml_shrink L (nonout st)).
+      + by apply (nocreate_shrink (nonout st)).
+      + intros b q Hbq. apply (dx_pk0 b q). by apply Hsub.
+    - intros b Hb. specialize (Hq b). cbn [f_hosts]. destruct (Hoh b Hb) as [fhb Hfhb]. cbn [st f_hosts] in Hfhb. rewrite Hfhb in Hq.
+      destruct Hq as (fh2 & -> & _). by eexists. }
+  split.
+  { intros b fhb k lr Hb Hk. specialize (Hsame b). rewrite Hb in Hsame. destruct Hsame as (fh0 & Hfh0 & Hr0 & _). rewrite <- Hr0 in Hk. by apply (Hmono b fh0 k lr). }
+  split.
+  { intros b fh' k Hb Hk. destruct (Hnew b fh' k Hb Hk) as (fh0 & Hfh0 & Hk0). destruct (Hback b fh0 Hfh0) as (fhb & Hfhb & Hr). exists fhb. by rewrite <- Hr. }
+  split; [exact Hq|]. split; [exact Hlen|]. split; [exact Hoth|]. split; [|exact Hdc].
+  intros (fh1 & q & Hfh1 & Hq1 & Hg). assert (fh1 = fh) as -> by congruence. apply Happ. by exists q.
+Qed.
+
+Lemma sd_execs s0 f0 h0 (l : list N) : ∀ st st',
+  SDs s0 f0 h0 st → NoDup l → steps P st ((λ a, EExec a true) <$> l) = Some st' →
+  SDs s0 f0 h0 st' ∧ f_db st' = f_db st ∧
+  (∀ b fh k lr, f_hosts st !! b = Some fh → fh_reps fh !! k = Some lr →
+     ∃ fh' lr', f_hosts st' !! b = Some fh' ∧ fh_reps fh' !! k = Some lr' ∧ (lr_running lr = true → lr_running lr' = true)) ∧
+  (∀ b fh' k, f_hosts st' !! b = Some fh' → is_Some (fh_reps fh' !! k) → ∃ fh, f_hosts st !! b = Some fh ∧ is_Some (fh_reps fh !! k)) ∧
+  (length (hist_of (f_hist st) s0) ≤ length (hist_of (f_hist st') s0))%nat ∧ (∀ s, s ≠ s0 → f_hist st' !! s = f_hist st !! s) ∧
+  ((∃ a fh q, a ∈ l ∧ f_hosts st !! a = Some fh ∧ q ∈ fh_queue fh ∧ gooddel s0 f0 h0 a q) → (length h0 < length (hist_of (f_hist st') s0))%nat) ∧
+  dchain f0 (hist_of (f_hist st) s0) (hist_of (f_hist st') s0).
+Proof.
+  induction l as [|a l IH]; intros st st' HS Hnd Hs.
+  { cbn in Hs. injection Hs as <-. split; [done|]. split; [done|]. split; [intros b fh k lr Hb Hk; by exists fh, lr|]. split; [intros b fh' k Hb Hk; by exists fh'|].
+    split; [done|]. split; [done|]. split; [|apply dchain_refl]. intros (a & fh & q & Hin & _). by apply elem_of_nil in Hin. }
+  apply NoDup_cons in Hnd as [Hnin Hnd]. rewrite fmap_cons in Hs. cbn [steps] in Hs.
+  destruct (fstep P st (EExec a true)) as [st1| |] eqn:E1; [| |done].
+  - destruct (sd_exec_event s0 f0 h0 st a st1 HS E1) as (HS1 & Hd1 & Hm1 & Hn1 & Hq1 & Hl1 & Ho1 & Ha1 & Hc1).
+    destruct (IH st1 st' HS1 Hnd Hs) as (HS' & Hd' & Hm2 & Hn2 & Hl2 & Ho2 & Ha2 & Hc2).
+    split; [done|]. split; [congruence|]. split; [|split; [|split; [lia|split; [intros s Hs0; rewrite (Ho2 s Hs0); by apply Ho1|]]]].
+    + intros b fh k lr Hb Hk. destruct (Hm1 b fh k lr Hb Hk) as (fh1 & lr1 & Hfh1 & Hk1 & Hr1). destruct (Hm2 b fh1 k lr1 Hfh1 Hk1) as (fh2 & lr2 & ? & ? & Hr2).
+      exists fh2, lr2. split; [done|]. split; [done|]. intros Hr. by apply Hr2, Hr1.
+    + intros b fh' k Hb Hk. destruct (Hn2 b fh' k Hb Hk) as (fh1 & Hfh1 & Hk1). by apply (Hn1 b fh1 k).
+    + split; [|by apply (dchain_trans f0 _ _ _ Hc1 Hc2)]. intros (b & fh & q & Hin & Hfh & Hq & Hg). apply elem_of_cons in Hin as [->|Hin].
+      * assert (length h0 < length (hist_of (f_hist st1) s0))%nat by (apply Ha1; by exists fh, q). lia.
+      * apply Ha2. specialize (Hq1 b). rewrite Hfh in Hq1. destruct Hq1 as (fh1 & Hfh1 & Hqq). rewrite decide_False in Hqq by (intros ->; done).
+        exists b, fh1, q. rewrite Hqq. done.
+  - (* no such NodeHost *)
+    destruct (IH st st' HS Hnd Hs) as (HS' & Hd' & Hm2 & Hn2 & Hl2 & Ho2 & Ha2 & Hc2). split; [done|]. split; [done|]. split; [done|]. split; [done|]. split; [done|]. split; [done|]. split; [|done].
+    intros (b & fh & q & Hin & Hfh & Hq & Hg). apply Ha2. apply elem_of_cons in Hin as [->|Hin]; [|by exists b, fh, q]. exfalso.
+    cbn [fstep] in E1. rewrite Hfh in E1. destruct HS as (_ & HSx & _). destruct (ml_hosts _ _ _ (dx_ml _ _ _ _ _ _ _ HSx) a fh Hfh) as [Hup _]. cbn [f_hosts] in Hup. rewrite Hup in E1.
+    by destruct (exec_all _ _ _ _).
+Qed.
+
+Lemma sd_pre s0 f0 x tt st plogs nticks st4 :
+  StageE L s0 f0 x tt st → (∀ a, plogs a = true) → N.of_nat nticks * p_step P ≤ p_ttl P →
+  pre_schedule P plogs nticks st = Some st4 →
+  ∃ (e0 : hentry) (hs1 : list hentry),
+    f_hist st !! s0 = Some (e0 :: hs1) ∧ f_hist st4 !! s0 = Some (((e0.1 + 1, delete f0 e0.2) : hentry) :: e0 :: hs1) ∧ is_Some (e0.2 !! f0) ∧
+    (∀ s, s ≠ s0 → f_hist st4 !! s = f_hist st !! s) ∧
+    LostX L st4 ∧ PReady L P st4 (d_tick (f_db st)) ∧
+    (∀ s h c, f_hist st !! s = Some h → d_view (f_db st4) !! s = Some c → s_cci c = cur_version h ∧ r_addr <$> s_reps c = cur_members h) ∧
+    (∀ s c rid n, d_view (f_db st4) !! s = Some c → s_reps c !! rid = Some n → r_tick n ≠ 0) ∧
+    d_tick (f_db st4) = d_tick (f_db st) + N.of_nat nticks * p_step P ∧ d_shards (f_db st4) = d_shards (f_db st) ∧
+    (∀ s rid a, member st s rid a → ¬ L s rid → member_running (f_hosts st4) s rid a = true) ∧
+    (∀ b fh4 k, f_hosts st4 !! b = Some fh4 → is_Some (fh_reps fh4 !! k) → ∃ fh, f_hosts st !! b = Some fh ∧ is_Some (fh_reps fh !! k)) ∧
+    (∀ b, is_Some (f_hosts st4 !! b) ↔ is_Some (f_hosts st !! b)) ∧
+    (∀ b, is_Some (d_hosts (f_db st4) !! b) → is_Some (f_hosts st !! b)) ∧
+    (∀ a q, nonout st4 a q → f_hosts st4 !! a = None ∧ nonout st a q).
+Proof.
+  intros HA Hpl Httl. destruct (se_b _ _ _ _ _ _ HA) as (HI & HP & Hoh). unfold pre_schedule. set (t := d_tick (f_db st)).
+  assert (Hone : ∀ s r1 r2, L s r1 → L s r2 → r1 = r2).
+  { intros s r1 r2 H1 H2. destruct (se_single _ _ _ _ _ _ HA _ _ H1) as [_ ->]. by destruct (se_single _ _ _ _ _ _ HA _ _ H2) as [_ ->]. }
+  assert (Hl : ∀ a, a ∈ host_addrs st → is_Some (f_hosts st !! a)) by (intros a; apply host_addrs_elem).
+  destruct (lostb_reports L P plogs (host_addrs st) st HI HP (host_addrs_nodup st) Hl) as
+    (st1 & E1 & [HI1 HP1] & Ho1a & Ho1b & Hsub1 & Hhi1 & Hse1 & Ht1 & Hsh1 & Hho1 & Hho1' & Hv1 & Hst1 & Hsp1 & Hot1).
+  pose proof (lost_reports_facts L P plogs (host_addrs st) st st1 HI HP (se_cur _ _ _ _ _ _ HA) (host_addrs_nodup st) Hl E1) as (Htk & Hplog & Hkeys).
+  pose proof (lostb_reports_requests L P plogs (host_addrs st) st st1 HI HP (host_addrs_nodup st) Hl E1) as Hrq1.
+  pose proof (lostb_reports_deliver L P plogs (host_addrs st) st st1 HI HP (host_addrs_nodup st) Hl E1) as Hdel1.
+  rewrite E1.
+  assert (Hdom1 : ∀ a, is_Some (f_hosts st1 !! a) ↔ is_Some (f_hosts st !! a)).
+  { intros a. destruct (f_hosts st !! a) as [fh|] eqn:Ha.
+    - destruct (Hho1 a fh) as (fh' & -> & _); [apply host_addrs_elem; by eexists|done|]. split; intros _; by eexists.
+    - rewrite Hho1', Ha; [done|]. intros Hin0. apply host_addrs_elem in Hin0. rewrite Ha in Hin0. by destruct Hin0. }
+  assert (Hcur1 : all_current st1).
+  { intros s h c1 Hh1 Hc1. rewrite Hhi1 in Hh1. destruct (ml_members _ _ _ HP s h Hh1) as (c & Hc & _).
+    destruct (Hv1 s h c Hh1 Hc) as (c' & Hc' & _ & Hkeep & _). assert (c' = c1) as -> by congruence. apply Hkeep. by apply (se_cur _ _ _ _ _ _ HA s). }
+  assert (Hreps1 : ∀ a fh1, f_hosts st1 !! a = Some fh1 → ∃ fh, f_hosts st !! a = Some fh ∧ fh_reps fh1 = fh_reps fh).
+  { intros a fh1 Ha1. destruct (f_hosts st !! a) as [fh|] eqn:Ha; [|exfalso; assert (is_Some (f_hosts st !! a)) as [? ?] by (apply Hdom1; by eexists); congruence].
+    destruct (Hho1 a fh) as (fh' & Hfh' & Hr); [apply host_addrs_elem; by eexists|done|]. exists fh. split; [done|]. congruence. }
+  (* the lost shard and the ADD that will be applied *)
+  destruct (se_live _ _ _ _ _ _ HA) as (ap & qa & m & Hqa & Hia & Hsa & Hmq & Hla & Hmm & HnLm).
+  destruct (se_mem _ _ _ _ _ _ HA) as (v & M & hs0 & Hh0 & Hxn & HszM & H3M & Hf0in).
+  set (e0 := ((v + 1, <[x := tt]> M) : hentry)) in *. set (hs1 := ((v, M) : hentry) :: hs0) in *.
+  change (f_hist st !! s0 = Some (e0 :: hs1)) in Hh0.
+  pose proof (li_hist _ _ _ _ _ HI s0 _ Hh0) as Hw0.
+  assert (Hf0e : is_Some (e0.2 !! f0)) by (unfold e0; cbn [snd]; rewrite lookup_insert_ne; [done|intros ->; destruct Hf0in; congruence]).
+  assert (Hsze : size e0.2 = S (size M)) by (unfold e0; cbn [snd]; by apply map_size_insert_None).
+  (* the invariant of the execution phase holds after the reports *)
+  assert (HS1 : SDs s0 f0 (e0 :: hs1) st1).
+  { split; [done|]. split; [|].
+    2:{ intros a Ha. apply Hdom1. destruct (decide (a ∈ host_addrs st)) as [Hin0|Hnin]; [by apply host_addrs_elem|].
+        apply Hoh. rewrite <- (Ho1b a Hnin). exact Ha. }
+    destruct st1 as [d1 hosts1 hist1 seen1]. cbn [f_db f_hosts f_hist f_seen] in *. split; cbn [fst snd].
+    - exact HP1.
+    - intros s h c v9 M9 M9' x9 rest Hh Hc Hb. exfalso. pose proof (Hcur1 s h c Hh Hc) as Hcc. destruct Hb as (-> & Hv & _). cbn in Hcc. lia.
+    - intros a fh1 k Ha1 Hk. destruct (Hreps1 a fh1 Ha1) as (fh & Hfh & Hr). rewrite Hr in Hk. destruct Hk as [lr Hk]. destruct k as [s rid].
+      destruct (se_clean _ _ _ _ _ _ HA a fh s rid lr Hfh Hk) as (b & h & Hh & Hm). exists h. cbn. rewrite Hhi1. split; [done|by eexists].
+    - intros a q Hq. pose proof (Hsub1 a q Hq) as Hq0. rewrite Hhi1. destruct (se_pend _ _ _ _ _ _ HA a q Hq0) as [[Hm Hc]|(Hid0 & Hs0 & Hmq0 & Hl0 & _)].
+      + split; [intros Hcq; by destruct (Hc Hcq)|]. split.
+        * intros Hia0. destruct Hm as [[(Hres & _)|[(_ & Hne & _)|(Hk & _)]]|[(Hcr & _)|(Hres & _)]]; try done.
+          -- unfold is_restore, is_create in Hres. unfold is_add in Hia0. by destruct (q_type q).
+          -- unfold is_kill in Hk. unfold is_add in Hia0. by destruct (q_type q).
+          -- unfold is_create in Hcr. unfold is_add in Hia0. by destruct (q_type q).
+          -- unfold is_restore, is_create in Hres. unfold is_add in Hia0. by destruct (q_type q).
+        * intros Hd. right. destruct Hm as [[(Hres & _)|[(_ & Hne & _)|(Hk & _)]]|[(Hcr & _)|(Hres & _)]]; try done.
+          -- unfold is_restore, is_create in Hres. unfold is_delete in Hd. by destruct (q_type q).
+          -- unfold is_kill in Hk. unfold is_delete in Hd. by destruct (q_type q).
+          -- unfold is_create in Hcr. unfold is_delete in Hd. by destruct (q_type q).
+          -- unfold is_restore, is_create in Hres. unfold is_delete in Hd. by destruct (q_type q).
+      + split; [intros Hcq; unfold is_create in Hcq; unfold is_delete in Hid0; by destruct (q_type q)|].
+        split; [intros Ha0; unfold is_add in Ha0; unfold is_delete in Hid0; by destruct (q_type q)|]. intros _. left. split; [done|]. by exists [].
+    - exists []. unfold hist_of. rewrite Hhi1, Hh0. done.
+    - intros _ rid a Hm HnL. assert (Hmm0 : member st s0 rid a) by (by exists (e0 :: hs1)).
+      pose proof (se_run _ _ _ _ _ _ HA s0 rid a Hmm0 HnL) as Hr. apply running_runs_on in Hr as (fh & Hfh & Hro).
+      destruct (Hho1 a fh) as (fh1 & Hfh1 & Hr1); [apply host_addrs_elem; by eexists|done|].
+      unfold member_running. cbn [fst]. rewrite Hfh1. destruct (ml_hosts _ _ _ HP1 a fh1 Hfh1) as [-> _]. cbn. unfold runs_on in Hro. by rewrite Hr1.
+    - intros a fh1 Ha1. destruct (Hreps1 a fh1 Ha1) as (fh & Hfh & Hr). rewrite Hr. by apply (se_nodata _ _ _ _ _ _ HA s0 f0 (se_lost _ _ _ _ _ _ HA) a fh). }
+  (* the NodeHosts execute: the ADD is applied *)
+  destruct (steps P st1 ((λ a, EExec a true) <$> host_addrs st1)) as [st2|] eqn:E2; [|done].
+  destruct (sd_execs s0 f0 (e0 :: hs1) (host_addrs st1) st1 st2 HS1 (host_addrs_nodup st1) E2) as (HS2 & Hd2 & Hm2 & Hn2 & Hlen2 & Hoth2 & Happ2 & Hdc2).
+  assert (HX1 : LostX L st1).
+  { destruct HS1 as (? & HSx & ?). split; [split; [done|split; [exact HP1|done]]|]. pose proof (dx_nc _ _ _ _ _ _ _ HSx) as Hnc. by destruct st1. }
+  destruct (lostx_execs L P (host_addrs st1) st1 st2 HX1 E2) as (HX2 & _ & Hq2).
+  pose proof (execs_hist P (host_addrs st1) st1 st2 E2 s0) as [l2 Hl2].
+  assert (Happlied : (length (e0 :: hs1) < length (hist_of (f_hist st2) s0))%nat).
+  { apply Happ2. assert (Hinp : ap ∈ host_addrs st) by (apply host_addrs_elem; by destruct Hla as (_ & _ & [? _] & _)).
+    destruct (Hdel1 ap qa Hinp Hqa) as (fhp & Hfhp & Hqq). exists ap, fhp, qa. split; [apply host_addrs_elem; by eexists|]. split; [done|]. split; [done|].
+    (* the request: a DELETE of f0 with the current fence *)
+    destruct Hla as (_ & Hfen & _). unfold hist_of in Hfen. rewrite Hsa, Hh0 in Hfen. cbn in Hfen.
+    unfold is_delete in Hia. destruct (q_type qa) eqn:Ety; try done.
+    split; [done|]. split; [done|]. exists [], e0, hs1. split; [done|]. split; [done|]. split; [done|]. split; [done|]. split.
+    { destruct Hmm as (hm & Hhm & Hmm). assert (hm = e0 :: hs1) as -> by congruence. by exists m. }
+    split; [lia|]. apply Hone. }
+  (* Raft catches up; time passes *)
+  destruct (steps P st2 (catch_up_events st2)) as [st3|] eqn:E3; [|done].
+  destruct (lostx_learns L P st2 st3 HX2 E3) as (HX3 & Hd3 & Hhi3 & Hf3).
+  pose proof (steps_pres P (λ stx, LostX L stx ∧ f_hist stx = f_hist st2 ∧
+      (∀ b s rid, member_running (f_hosts st2) s rid b = true → member_running (f_hosts stx) s rid b = true) ∧
+      (∀ b fh' k, f_hosts stx !! b = Some fh' → is_Some (fh_reps fh' !! k) → ∃ fh, f_hosts st2 !! b = Some fh ∧ is_Some (fh_reps fh !! k)))
+      (catch_up_events st2)) as Hex.
+  destruct (Hex) with (st := st2) (st' := st3) as (_ & _ & Hrun3 & Hk3); [| |done|].
+  { intros stx ev sty Hev (HXx & Hhx & Hrx & Hkx) E. apply catch_up_members in Hev as (a & s & r & v9 & -> & Hm). rewrite <- Hhx in Hm.
+    destruct (lostx_learn L P stx a s r v9 sty HXx Hm E) as (HXy & _ & Hhy & _).
+    destruct HXx as [(HIx & _) _]. destruct (learn_frame P stx a s r v9 sty HIx Hm E) as (Hr & Hk).
+    split; [done|]. split; [congruence|]. split.
+    - intros b s1 rid Hrb. apply Hr. by apply Hrx.
+    - intros b fh' k Hb Hkk. destruct (Hk b fh' k Hb Hkk) as (fh0 & Hfh0 & Hk0). by apply (Hkx b fh0 k). }
+  { split; [done|]. split; [done|]. split; [done|]. intros b fh' k Hb Hkk. by exists fh'. }
+  clear Hex.
+  destruct (steps P st3 (replicate nticks ETick)) as [st4'|] eqn:E4; [|done]. intros [= ->].
+  destruct (lostx_ticks L P nticks st3 st4 HX3 E4) as (HX4 & Hd4 & Hho4 & Hhi4).
+  set (T := d_tick (f_db st1) + N.of_nat nticks * p_step P).
+  assert (Hdb : f_db st4 = set_tick (f_db st1) T) by (rewrite Hd4, Hd3, Hd2; done).
+  assert (Hview4 : d_view (f_db st4) = d_view (f_db st1)) by (by rewrite Hdb).
+  assert (Hhist4 : f_hist st4 = f_hist st2) by congruence.
+  pose proof HX4 as [(HI4 & HP4 & Hoh4) Hnc4].
+  (* exactly one entry has been appended: the removal of f0 *)
+  assert (Hh4 : f_hist st4 !! s0 = Some (((e0.1 + 1, delete f0 e0.2) : hentry) :: e0 :: hs1)).
+  { rewrite Hhist4. unfold hist_of in Hl2, Happlied, Hdc2. rewrite Hhi1, Hh0 in Hl2, Hdc2. cbn [default from_option id] in Hl2, Hdc2.
+    destruct (f_hist st2 !! s0) as [h2|] eqn:Eh2; cbn [default from_option id] in Hl2, Happlied, Hdc2; [|cbn in Happlied; lia]. subst h2.
+    assert (Hh4' : f_hist st4 !! s0 = Some (l2 ++ e0 :: hs1)) by (by rewrite Hhist4).
+    pose proof (li_hist _ _ _ _ _ HI4 s0 _ Hh4') as Hw4. pose proof (hist_wf_app_version _ l2 (e0 :: hs1) Hw4 ltac:(done)) as Hver.
+    destruct (ml_members _ _ _ HP4 s0 _ Hh4') as (c4 & Hc4 & Hcase4 & _). rewrite Hview4 in Hc4.
+    pose proof (Hcur1 s0 (e0 :: hs1) c4 ltac:(by rewrite Hhi1) Hc4) as Hcc. cbn [cur_version] in Hcc, Hver.
+    rewrite app_length in Happlied. cbn [length] in Happlied.
+    destruct Hcase4 as [Hcc4|(v' & M1 & M1' & x' & rest & Hhh & Hv & Hkind)]; [rewrite Hcc4 in Hcc; lia|].
+    assert (Hl1 : ∃ e, l2 = [e]).
+    { rewrite Hhh in Hver. cbn [cur_version fst] in Hver. destruct l2 as [|e [|e2 l3]]; [cbn in Happlied; lia|by exists e|cbn [length] in Hver; lia]. }
+    destruct Hl1 as [e ->]. f_equal.
+    destruct Hdc2 as [Heq|(e1 & hs2 & l & Heq1 & Heq2)].
+    - apply (f_equal length) in Heq. cbn in Heq. lia.
+    - injection Heq1 as <- <-. destruct l as [|e' l]; [cbn [app] in Heq2; by injection Heq2 as ->|].
+      apply (f_equal length) in Heq2. rewrite !app_length in Heq2. cbn [length] in Heq2. lia. }
+  exists e0, hs1. split; [done|]. split; [done|]. split; [done|].
+  split. { intros s Hs. rewrite Hhist4, (Hoth2 s Hs). by rewrite Hhi1. }
+  split; [done|].
+  (* the records after the reports *)
+  assert (Hmemrec : ∀ s c1 rid n1, d_view (f_db st1) !! s = Some c1 → s_reps c1 !! rid = Some n1 →
+            ∃ h, f_hist st !! s = Some h ∧ cur_members h !! rid = Some (r_addr n1)).
+  { intros s c1 rid n1 Hc1 Hn1. destruct (ml_viewdef _ _ _ HP1 s) as [_ [h Hh1]]; [by eexists|].
+    destruct (calm_view st1 s h c1 HI1 Hh1 Hc1 (Hcur1 s h c1 Hh1 Hc1)) as (HM & _). exists h. rewrite <- Hhi1. split; [done|].
+    rewrite <- HM, lookup_fmap, Hn1. done. }
+  assert (Hclass : ∀ s c1 rid n1, d_view (f_db st1) !! s = Some c1 → s_reps c1 !! rid = Some n1 →
+            ∃ n0, rec_of (d_view (f_db st)) s rid = Some n0 ∧
+              ((¬ L s rid ∧ r_tick n1 = t) ∨ (L s rid ∧ r_tick n1 = r_tick n0))).
+  { intros s c1 rid n1 Hc1 Hn1. assert (Hrec1 : rec_of (d_view (f_db st1)) s rid = Some n1) by (apply rec_of_Some; eauto).
+    destruct (Htk s rid n1 Hrec1) as (n0 & Hn0 & Hcase). exists n0. split; [done|].
+    destruct (Hmemrec s c1 rid n1 Hc1 Hn1) as (h & Hh & Hm).
+    destruct (Ldec s rid) as [Hl0|Hnl].
+    - right. split; [done|]. destruct Hcase as [[(a & fh & _ & Hfh & Hro) _]|[_ ?]]; [|done]. exfalso.
+      unfold runs_on in Hro. rewrite (se_nodata _ _ _ _ _ _ HA s rid Hl0 a fh Hfh) in Hro. done.
+    - left. split; [done|]. destruct Hcase as [[_ ?]|[Hnone _]]; [done|]. exfalso.
+      assert (Hmm0 : member st s rid (r_addr n1)) by (by exists h).
+      pose proof (se_run _ _ _ _ _ _ HA s rid _ Hmm0 Hnl) as Hr. apply running_runs_on in Hr as (fh & Hfh & Hro).
+      rewrite (Hnone (r_addr n1) fh) in Hro; [done|apply host_addrs_elem; by eexists|done]. }
+  assert (Hpos : 0 < t) by apply (ml_time _ _ _ HP).
+  assert (Hstamp4 : ∀ s c rid n, d_view (f_db st4) !! s = Some c → s_reps c !! rid = Some n → r_tick n ≠ 0).
+  { intros s c rid n Hc Hn. rewrite Hview4 in Hc. destruct (Hclass s c rid n Hc Hn) as (n0 & Hn0 & [[_ ->]|[_ ->]]); [lia|].
+    apply rec_of_Some in Hn0 as (c0 & Hc0 & Hk0). by apply (se_stamped _ _ _ _ _ _ HA s c0 rid n0). }
+  split.
+  { split.
+    - exact HI4.
+    - intros s Hs. rewrite Hview4 in Hs. destruct (ml_viewdef _ _ _ HP1 s Hs) as [[sd Hsd] _]. destruct (ml_defined _ _ _ HP1 s sd Hsd) as (_ & _ & Happ).
+      exists sd. rewrite Hdb. cbn [set_tick d_shards]. done.
+    - split; [lia|]. rewrite Hdb. cbn [set_tick d_tick]. unfold T. rewrite Ht1. fold t. lia.
+    - intros s c rid n Hc Hn. pose proof (Hstamp4 s c rid n Hc Hn) as Hnz. rewrite Hview4 in Hc.
+      destruct (Hclass s c rid n Hc Hn) as (n0 & Hn0 & [[_ ?]|[Hl0 Htkn]]); [by left|]. right; right. split; [done|]. split; [done|].
+      intros hh Hhh Hlog. rewrite Hdb in Hhh. cbn [set_tick d_hosts] in Hhh.
+      destruct (Hmemrec s c rid n Hc Hn) as (h & Hh & Hm). destruct (ml_members _ _ _ HP s h Hh) as (_ & _ & _ & Hmem).
+      destruct (Hmem rid _ Hm) as (_ & _ & fh & Hfh & _).
+      destruct (Hplog (r_addr n) fh hh) with (k := (s, rid)) as [lr Hk]; [apply host_addrs_elem; by eexists|apply Hpl|done|done|done|].
+      by rewrite (se_nodata _ _ _ _ _ _ HA s rid Hl0 _ fh Hfh) in Hk.
+    - exact Hone.
+    - intros s c r1 r2 n1 n2 Hc H1 H2 Hz1. by destruct (Hstamp4 s c r1 n1 Hc H1).
+    - intros s rid Hl0. destruct (se_single _ _ _ _ _ _ HA s rid Hl0) as [-> ->]. unfold shard_size. rewrite Hdb. cbn [set_tick d_shards]. rewrite Hsh1.
+      unfold shard_size in HszM. lia. }
+  split. { intros s h c Hh Hc. rewrite Hview4 in Hc. assert (Hh1 : f_hist st1 !! s = Some h) by (by rewrite Hhi1).
+           pose proof (Hcur1 s h c Hh1 Hc) as Hcc. split; [done|]. by destruct (calm_view st1 s h c HI1 Hh1 Hc Hcc) as (HM & _). }
+  split; [exact Hstamp4|].
+  split. { rewrite Hdb. cbn [set_tick d_tick]. unfold T. by rewrite Ht1. }
+  split; [rewrite Hdb; cbn [set_tick d_shards]; exact Hsh1|].
+  assert (Hdom4 : ∀ b, is_Some (f_hosts st4 !! b) ↔ is_Some (f_hosts st !! b)).
+  { intros b. rewrite Hho4, <- Hdom1. specialize (Hq2 b). specialize (Hf3 b). destruct (f_hosts st1 !! b) as [fh1|].
+    - destruct Hq2 as (fh2 & Hfh2 & _). rewrite Hfh2 in Hf3. destruct Hf3 as (fh3 & -> & _). split; intros _; by eexists.
+    - rewrite Hq2 in Hf3. rewrite Hf3. done. }
+  split.
+  { intros s rid a Hm HnL. rewrite Hho4. apply Hrun3.
+    pose proof (se_run _ _ _ _ _ _ HA s rid a Hm HnL) as Hr. apply running_runs_on in Hr as (fh & Hfh & Hro).
+    destruct (Hho1 a fh) as (fh1 & Hfh1 & Hr1); [apply host_addrs_elem; by eexists|done|].
+    unfold runs_on in Hro. rewrite <- Hr1 in Hro. destruct (fh_reps fh1 !! (s, rid)) as [lr1|] eqn:Ek1; [|done].
+    destruct (Hm2 a fh1 (s, rid) lr1 Hfh1 Ek1) as (fh2 & lr2 & Hfh2 & Hk2 & Hrr). unfold member_running. rewrite Hfh2, Hk2.
+    destruct HX2 as [(_ & HP2 & _) _]. destruct (ml_hosts _ _ _ HP2 a fh2 Hfh2) as [-> _]. cbn. by apply Hrr. }
+  split.
+  { intros b fh4 k Hb Hk. rewrite Hho4 in Hb. destruct (Hk3 b fh4 k Hb Hk) as (fh2 & Hfh2 & Hkk2). destruct (Hn2 b fh2 k Hfh2 Hkk2) as (fh1 & Hfh1 & Hkk1).
+    destruct (Hreps1 b fh1 Hfh1) as (fh & Hfh & Hr). exists fh. by rewrite <- Hr. }
+  split; [exact Hdom4|]. split.
+  { intros b Hb. rewrite Hdb in Hb. cbn [set_tick d_hosts] in Hb. destruct (Hkeys b Hb) as [Hinb|Hold]; [by apply host_addrs_elem|by apply (se_dbhosts _ _ _ _ _ _ HA)]. }
+  (* nothing is pending for a NodeHost *)
+  intros a q Hq.
+  assert (Hq1 : nonout st1 a q ∧ f_hosts st4 !! a = None).
+  { destruct (f_hosts st4 !! a) as [fh4|] eqn:Ha4.
+    - exfalso. rewrite Hho4 in Ha4. specialize (Hf3 a). specialize (Hq2 a).
+      destruct (f_hosts st2 !! a) as [fh2|] eqn:Ha2; [|congruence]. destruct Hf3 as (fh3 & Hfh3 & Hq3). assert (fh3 = fh4) as -> by congruence.
+      destruct (f_hosts st1 !! a) as [fh1|] eqn:Ha1; [|congruence]. destruct Hq2 as (fh2' & Hfh2' & Hqq2). assert (fh2' = fh2) as -> by congruence.
+      assert (Hin1' : a ∈ host_addrs st1) by (apply host_addrs_elem; by eexists).
+      assert (Hin0 : a ∈ host_addrs st) by (apply host_addrs_elem, Hdom1; by eexists).
+      rewrite decide_True in Hqq2 by done.
+      destruct Hq as [(qs & Hl0 & _)|(fh & Hl0 & Hinq)].
+      + rewrite Hdb in Hl0. cbn [set_tick d_requests] in Hl0. rewrite (Hrq1 a Hin0) in Hl0. done.
+      + rewrite Hho4, Hfh3 in Hl0. injection Hl0 as <-. rewrite Hq3, Hqq2 in Hinq. by apply elem_of_nil in Hinq.
+    - split; [|done]. destruct Hq as [(qs & Hl0 & Hi0)|(fh & Hl0 & _)]; [|congruence]. left. exists qs. rewrite Hdb in Hl0. done. }
+  destruct Hq1 as [Hq1 Hn4]. split; [done|]. by apply Hsub1.
+Qed.
+
+
+Lemma mendl_mendp (B : N → request → Prop) st :
+  MendL L B st → (∀ s h rid a, f_hist st !! s = Some h → cur_members h !! rid = Some a → ¬ L s rid) → MendP B st.
+Proof.
+  intros HP Hno. destruct HP. split; try done.
+  intros s h Hh. destruct (ml_members s h Hh) as (c & Hc & Hcase & Hmem). exists c. split; [done|]. split; [done|].
+  intros rid a Hm. destruct (Hmem rid a Hm) as (? & ? & fh & Hfh & Hdata). split; [done|]. split; [done|]. exists fh. split; [done|].
+  intros Hst. destruct (Hdata Hst) as [?|Hl0]; [done|]. by destruct (Hno s h rid a Hh Hm).
+Qed.
+
+(** ** stage (d): the round in which the DELETE of the lost member is applied *)
+Theorem lost_stage_delete_applied s0 f0 x tt st st' plogs nticks o :
+  StageE L s0 f0 x tt st → (∀ a, plogs a = true) → N.of_nat nticks * p_step P < p_ttl P →
+  (∀ s, is_Some (f_hist st !! s) → ∃ a, spare st a s) → o ≠ OCrash →
+  (∀ st4, pre_schedule P plogs nticks st = Some st4 → fresh_ok st4 (ESchedule o)) →
+  healthy_round P plogs nticks o st = Some st' →
+  ∃ b, o = OBatch b ∧ MendB st' ∧ (∀ a q, nonout st' a q → mharmless (f_hist st') a q) ∧
+    (∀ s h rid a, f_hist st' !! s = Some h → cur_members h !! rid = Some a → ¬ L s rid) ∧
+    (∃ (e0 : hentry) (hs1 : list hentry), f_hist st !! s0 = Some (e0 :: hs1) ∧
+       f_hist st' !! s0 = Some (((e0.1 + 1, delete f0 e0.2) : hentry) :: e0 :: hs1) ∧ is_Some (e0.2 !! f0)) ∧
+    (∀ s, s ≠ s0 → f_hist st' !! s = f_hist st !! s) ∧
+    d_tick (f_db st') = d_tick (f_db st) + N.of_nat nticks * p_step P.
+Proof.
+  intros HA Hpl Httl Hsp Hnc Hfr Hr. destruct (se_b _ _ _ _ _ _ HA) as (HI & HP & Hoh).
+  assert (Hne : o ≠ OError).
+  { apply (round_no_error P st st' plogs nticks o HI); [|done|done|done]. intros a fh Ha. by destruct (ml_hosts _ _ _ HP a fh Ha). }
+  rewrite healthy_round_pre in Hr. destruct (pre_schedule P plogs nticks st) as [st4|] eqn:Epre; [|done].
+  destruct (sd_pre s0 f0 x tt st plogs nticks st4 HA Hpl ltac:(lia) Epre) as
+    (e0 & hs1 & Hh0 & Hh4 & Hf0e & Hoth4 & HX4 & HR4 & Hcur4 & Hstamp4 & Htick4 & Hsh4 & Hrun4 & Hkeys4 & Hdom4 & Hdbh4 & Hnoh4).
+  specialize (Hfr st4 eq_refl).
+  destruct (fstep P st4 (ESchedule o)) as [st5| |] eqn:E5; try done. injection Hr as <-.
+  destruct HX4 as [(HI4 & HP4 & Hoh4) Hnc4].
+  cbn [fstep] in E5. destruct (allowed P (ctx_of_db (f_db st4)) o) eqn:Hal; [|done].
+  destruct o as [b| |]; [|done|done]. exists b. split; [done|].
+  set (C := ctx_of_db (f_db st4)) in *. pose proof (loopinv_ctx_wf st4 HI4) as Hwf. fold C in Hwf.
+  set (t := d_tick (f_db st)) in *.
+  (* the size of the membership Drummer sees *)
+  destruct (se_mem _ _ _ _ _ _ HA) as (v & M & hs0 & Hh0' & Hxn & HszM & H3M & Hf0in).
+  assert (Hsze : size e0.2 = S (size M)).
+  { rewrite Hh0 in Hh0'. injection Hh0' as -> _. cbn [snd]. by apply map_size_insert_None. }
+  (* what the batch consists of *)
+  assert (Hkinds : ∀ q, q ∈ b → is_kill q = true ∨
+            (is_delete q = true ∧ ∃ c, c ∈ entries C ∧ s_id c = q_shard q ∧ delete_req_ok P C c q = true ∧ s_id c = s0)).
+  { intros q Hq. destruct (batch_request_cases P C b q Hal Hq) as [Hk|(_ & c & qs & Hc & Hs & Hinq & Hg & _)]; [left; by apply (kills_are_kill C)|].
+    destruct (lostp_entry L P Ldec st4 t c HR4 Hc) as (h & sd & Hh & Hvc & _ & _ & Hhr & Hfl & Hw & _ & Hnone & Hadd). fold C in Hhr, Hfl, Hw, Hnone, Hadd.
+    assert (Hnw : sr_wait P C c = []).
+    { destruct (sr_wait P C c) as [|nw lw] eqn:Ew; [done|]. exfalso. assert (Hnw : nw ∈ sr_wait P C c) by (rewrite Ew; left).
+      pose proof (Hw nw ltac:(left)) as Hz. apply elem_sr_wait in Hnw as [Hnw _]. apply elem_of_mvals in Hnw as [rid Hrid]. by apply (Hstamp4 _ c rid nw Hvc). }
+    apply group_allowed_inv in Hg as [(Hhr' & _)|(_ & Hcases)]; [congruence|].
+    destruct (sr_failed P C c) as [|nf l0] eqn:Ef.
+    - rewrite (Hnone Hnw eq_refl) in Hcases. destruct Hcases as [[_ ->]|[(? & _)|[(? & ? & _)|(? & _)]]]; try done. by apply elem_of_nil in Hinq.
+    - destruct (Hfl nf ltac:(left)) as [Hlf _]. destruct (se_single _ _ _ _ _ _ HA _ _ Hlf) as [Hs0 _].
+      destruct (Hadd Hnw ltac:(done)) as [_ Hdel']. rewrite Hdel' in Hcases.
+      2:{ rewrite Hs0 in Hvc |- *. destruct (Hcur4 s0 _ c Hh0 Hvc) as [_ HM]. cbn [cur_members snd] in HM.
+          rewrite <- (map_size_fmap r_addr), HM, Hsze. unfold shard_size. rewrite Hsh4. unfold shard_size in HszM. lia. }
+      destruct Hcases as [[? _]|[(_ & q' & -> & Hok)|[(? & ? & _)|(? & _)]]]; try done.
+      apply elem_of_list_singleton in Hinq as ->. right. pose proof Hok as Hok'. unfold delete_req_ok in Hok'. apply bool_decide_eq_true in Hok' as (Hd & _).
+      split; [done|]. exists c. done. }
+  assert (Hvalid : ∀ q, q ∈ b → valid_req q = true).
+  { intros q Hq. apply allowed_batch_inv in Hal as (_ & _ & _ & _ & _ & Hv). rewrite Forall_forall in Hv. by apply Hv. }
+  (* the state after the step *)
+  assert (E' : fstep P st4 (ESchedule (OBatch b)) = FOk st5) by (cbn [fstep]; fold C; by rewrite Hal).
+  pose proof (step_inv P st4 _ st5 HI4 Hfr E') as HI5.
+  pose proof (fstep_time_ok P st4 _ st5 E' (ml_timeok _ _ _ HP4)) as Hto5.
+  assert (Hst5 : f_hosts st5 = f_hosts st4 ∧ f_hist st5 = f_hist st4 ∧
+                 f_db st5 = set_requests (f_db st4) (put_requests (d_requests (f_db st4)) b)).
+  { destruct b as [|q0 b0].
+    - injection E5 as <-. split; [done|]. split; [done|]. destruct st4 as [d ? ? ?]. cbn. by destruct d.
+    - rewrite (schedule_db P st4 (q0 :: b0) HI4 Hal) in E5 by (intros y Hy; destruct Hfr as [_ Hfr]; by apply Hfr).
+      injection E5 as <-. done. }
+  destruct Hst5 as (Eh & Ehi & Ed).
+  assert (Hnew : ∀ q, q ∈ b → nonout st5 (q_raft q) q).
+  { intros q Hq. left. exists (for_addr (q_raft q) b). rewrite Ed. cbn [set_requests d_requests]. rewrite put_requests_lookup.
+    rewrite bool_decide_eq_true_2 by (unfold mentions; apply elem_of_list_fmap; by exists q). split; [done|]. unfold for_addr. apply elem_of_list_filter. done. }
+  assert (Hsplit : ∀ a q, nonout st5 a q → nonout st4 a q ∨ (q ∈ b ∧ q_raft q = a)).
+  { intros a q [(qs & Hl0 & Hi0)|(fh & Hl0 & Hi0)]; [|left; right; exists fh; by rewrite <- Eh].
+    rewrite Ed in Hl0. cbn [set_requests d_requests] in Hl0. rewrite put_requests_lookup in Hl0. case_bool_decide as Hm; [|left; left; eauto].
+    injection Hl0 as <-. unfold for_addr in Hi0. apply elem_of_list_filter in Hi0 as [Hra Hi0]. by right. }
+  assert (Hview5 : d_view (f_db st5) = d_view (f_db st4)) by (by rewrite Ed).
+  assert (Hhof5 : hist_of (f_hist st5) s0 = ((e0.1 + 1, delete f0 e0.2) : hentry) :: e0 :: hs1) by (unfold hist_of; by rewrite Ehi, Hh4).
+  (* every pending request is a leftover *)
+  assert (Hall : ∀ a q, nonout st5 a q → mharmless (f_hist st5) a q).
+  { intros a q Hq. destruct (Hsplit a q Hq) as [Hq4|[Hqb <-]].
+    { destruct (Hnoh4 a q Hq4) as [Hno Hq0]. rewrite Ehi.
+      destruct (ml_boxes _ _ _ HP4 a q Hq4) as [[Hm _]|[Hl0 _]]; [done|]. exfalso. destruct Hl0 as (_ & _ & [[fh Hfh] _] & _). congruence. }
+    destruct (Hkinds q Hqb) as [Hk|(Hid & c & Hc & Hs & Hok & Hcs0)].
+    - assert (Hbox : in_box (f_db st5) (f_hosts st5) [] q) by (destruct (Hnew q Hqb) as [(qs & ? & ?)|(fh & ? & ?)]; [left; eauto|right; right; left; eauto]).
+      destruct (li_reqs _ _ _ _ _ HI5 q Hbox) as [_ Hreq]. unfold is_kill in Hk. destruct (q_type q) eqn:Ety; try done.
+      destruct Hreq as (y & Hy & Hd). left; right; right. split; [unfold is_kill; by rewrite Ety|]. exists y. split; [done|].
+      intros h Hh. by destruct (Hd h Hh).
+    - destruct (lostp_entry L P Ldec st4 t c HR4 Hc) as (h & sd & Hh & Hvc & _). rewrite Hcs0 in Hvc.
+      destruct (Hcur4 s0 _ c Hh0 Hvc) as [Hcc _]. cbn [cur_version] in Hcc.
+      unfold delete_req_ok in Hok. apply bool_decide_eq_true in Hok as (_ & Hsh & Hfence & Hexf & _).
+      left; right; left. split; [unfold is_change; by rewrite Hid, orb_true_r|]. split.
+      { rewrite Hsh, Hcs0, Hhof5, Hfence, Hcc. cbn. lia. }
+      split; [apply Exists_exists in Hexf as (nf & _ & ->); done|]. intros Hia. unfold is_add in Hia. unfold is_delete in Hid. by destruct (q_type q). }
+  assert (Hnol : ∀ s h rid a, f_hist st5 !! s = Some h → cur_members h !! rid = Some a → ¬ L s rid).
+  { intros s h rid a Hh Hm Hl0. destruct (se_single _ _ _ _ _ _ HA _ _ Hl0) as [-> ->]. rewrite Ehi, Hh4 in Hh. injection Hh as <-.
+    cbn [cur_members snd] in Hm. by rewrite lookup_delete in Hm. }
+  assert (HP5 : MendL L (nonout st5) st5).
+  { destruct HP4. split; try rewrite Ed; try rewrite Eh; try rewrite Ehi; cbn [set_requests d_tick d_shards d_view d_kill]; try done.
+    all: try (rewrite Ed in Hto5; exact Hto5).
+    intros a q Hq. pose proof (Hall a q Hq) as Hm.
+    left. rewrite Ehi in Hm. split; [done|]. rewrite <- Ehi. by apply (nonout_qextra st5 a q). }
+  split.
+  { split; [exact HI5|]. split; [by apply mendl_mendp|]. intros a Ha. rewrite Eh. apply Hoh4. rewrite Ed in Ha. exact Ha. }
+  split; [exact Hall|]. split; [exact Hnol|]. split.
+  { exists e0, hs1. rewrite Ehi. done. }
+  split; [intros s Hs; rewrite Ehi; by apply Hoth4|]. rewrite Ed. cbn [set_requests d_tick]. exact Htick4.
+Qed.
+
+
+(** * the bridge from the committed prefix (C01_lost_round) to stage (a): who proposes the replacement ADD *)
+Lemma lost_round_proposer st st' plogs nticks o :
+  Lost L st → (∀ a, plogs a = true) → N.of_nat nticks * p_step P < p_ttl P →
+  (∀ s, is_Some (f_hist st !! s) → ∃ a, spare st a s) → o ≠ OCrash →
+  (∀ st4, pre_schedule P plogs nticks st = Some st4 → fresh_ok st4 (ESchedule o)) →
+  healthy_round P plogs nticks o st = Some st' →
+  ∀ a q, nonout st' a q → is_add q = true → q_ccid q = cur_version (hist_of (f_hist st') (q_shard q)) →
+  ∃ m, member st' (q_shard q) m a ∧ ¬ L (q_shard q) m.
+Proof.
+  intros HL Hpl Httl Hsp Hnc Hfr Hr ax qx Hqx Hiax Hfencex. pose proof HL as [HK Hin]. destruct (lo_b _ _ HK) as (HI & HP & Hoh).
+  assert (Hne : o ≠ OError).
+  { apply (round_no_error P st st' plogs nticks o HI); [|done|done|done]. intros a fh Ha. by destruct (ml_hosts _ _ _ HP a fh Ha). }
+  rewrite healthy_round_pre in Hr. destruct (pre_schedule P plogs nticks st) as [st4|] eqn:Epre; [|done].
+  destruct (lost_pre L P Ldec st plogs nticks st4 HL Hpl ltac:(lia) Epre) as
+    (HX4 & Hin4 & HR4 & Hhi4 & Htick4 & Hsh4 & Hmt4 & Hrun4 & Hkeys4 & Hdom4 & Hdbh4 & Hnoh4).
+  specialize (Hfr st4 eq_refl).
+  destruct (fstep P st4 (ESchedule o)) as [st5| |] eqn:E5; try done. injection Hr as <-.
+  destruct HX4 as [(HI4 & HP4 & Hoh4) Hnc4].
+  cbn [fstep] in E5. destruct (allowed P (ctx_of_db (f_db st4)) o) eqn:Hal; [|done].
+  destruct o as [b| |]; [|done|done].
+  set (C := ctx_of_db (f_db st4)) in *. pose proof (loopinv_ctx_wf st4 HI4) as Hwf. fold C in Hwf.
+  set (t := d_tick (f_db st)) in *.
+  (* what the batch consists of *)
+  assert (Hkinds : ∀ q, q ∈ b → is_kill q = true ∨
+            (is_add q = true ∧ ∃ c, c ∈ entries C ∧ s_id c = q_shard q ∧ add_req_ok P C c q = true ∧ sr_failed P C c ≠ [])).
+  { intros q Hq. destruct (batch_request_cases P C b q Hal Hq) as [Hk|(_ & c & qs & Hc & Hs & Hinq & Hg & _)]; [left; by apply (kills_are_kill C)|].
+    destruct (lost_entry L P st4 t c HR4 Hc) as (h & _ & _ & _ & _ & Hhr & _ & Hnone & Hadd). fold C in Hhr, Hnone, Hadd.
+    apply group_allowed_inv in Hg as [(Hhr' & _)|(_ & Hcases)]; [congruence|].
+    destruct (sr_failed P C c) as [|nf l0] eqn:Ef.
+    - rewrite (Hnone eq_refl) in Hcases. destruct Hcases as [[_ ->]|[(? & _)|[(? & ? & _)|(? & _)]]]; try done. by apply elem_of_nil in Hinq.
+    - rewrite (Hadd ltac:(done)) in Hcases. destruct Hcases as [[? _]|[(? & _)|[(? & ? & _)|(_ & q' & -> & Hok)]]]; try done.
+      apply elem_of_list_singleton in Hinq as ->. right. pose proof Hok as Hok'. unfold add_req_ok in Hok'. apply bool_decide_eq_true in Hok' as (Ha & _).
+      split; [done|]. exists c. rewrite Ef. done. }
+  assert (Hvalid : ∀ q, q ∈ b → valid_req q = true).
+  { intros q Hq. apply allowed_batch_inv in Hal as (_ & _ & _ & _ & _ & Hv). rewrite Forall_forall in Hv. by apply Hv. }
+  (* the state after the step *)
+  assert (E' : fstep P st4 (ESchedule (OBatch b)) = FOk st5) by (cbn [fstep]; fold C; by rewrite Hal).
+  pose proof (step_inv P st4 _ st5 HI4 Hfr E') as HI5.
+  pose proof (fstep_time_ok P st4 _ st5 E' (ml_timeok _ _ _ HP4)) as Hto5.
+  assert (Hst5 : f_hosts st5 = f_hosts st4 ∧ f_hist st5 = f_hist st4 ∧
+                 f_db st5 = set_requests (f_db st4) (put_requests (d_requests (f_db st4)) b)).
+  { destruct b as [|q0 b0].
+    - injection E5 as <-. split; [done|]. split; [done|]. destruct st4 as [d ? ? ?]. cbn. by destruct d.
+    - rewrite (schedule_db P st4 (q0 :: b0) HI4 Hal) in E5 by (intros x Hx; destruct Hfr as [_ Hfr]; by apply Hfr).
+      injection E5 as <-. done. }
+  destruct Hst5 as (Eh & Ehi & Ed).
+  assert (Hnew : ∀ q, q ∈ b → nonout st5 (q_raft q) q).
+  { intros q Hq. left. exists (for_addr (q_raft q) b). rewrite Ed. cbn [set_requests d_requests]. rewrite put_requests_lookup.
+    rewrite bool_decide_eq_true_2 by (unfold mentions; apply elem_of_list_fmap; by exists q). split; [done|]. unfold for_addr. apply elem_of_list_filter. done. }
+  assert (Hsplit : ∀ a q, nonout st5 a q → nonout st4 a q ∨ (q ∈ b ∧ q_raft q = a)).
+  { intros a q [(qs & Hl0 & Hi0)|(fh & Hl0 & Hi0)]; [|left; right; exists fh; by rewrite <- Eh].
+    rewrite Ed in Hl0. cbn [set_requests d_requests] in Hl0. rewrite put_requests_lookup in Hl0. case_bool_decide as Hm; [|left; left; eauto].
+    injection Hl0 as <-. unfold for_addr in Hi0. apply elem_of_list_filter in Hi0 as [Hra Hi0]. by right. }
+  destruct (Hsplit ax qx Hqx) as [Hq4|[Hqb <-]].
+  { exfalso. destruct (Hin4 ax qx Hq4) as [Hm _]. rewrite Ehi in Hfencex.
+    destruct Hm as [[(Hres & _)|[(_ & Hne0 & _)|(Hk & _)]]|[(Hcr & _)|(Hres & _)]]; try done.
+    - unfold is_restore, is_create in Hres. unfold is_add in Hiax. by destruct (q_type qx).
+    - unfold is_kill in Hk. unfold is_add in Hiax. by destruct (q_type qx).
+    - unfold is_create in Hcr. unfold is_add in Hiax. by destruct (q_type qx).
+    - unfold is_restore, is_create in Hres. unfold is_add in Hiax. by destruct (q_type qx). }
+  destruct (Hkinds qx Hqb) as [Hk|(_ & c & Hc & Hs & Hok & Hfne)]; [unfold is_kill in Hk; unfold is_add in Hiax; by destruct (q_type qx)|].
+  destruct (lost_entry L P st4 t c HR4 Hc) as (h & Hh & Hvc & Hcc & Hwait & Hhr & Hfl & _ & _). fold C in Hwait, Hhr, Hfl.
+  destruct (calm_view st4 _ h c HI4 Hh Hvc Hcc) as (HM & _ & Hids).
+  unfold add_req_ok in Hok. apply bool_decide_eq_true in Hok as (_ & Hsh & _ & _ & Hexok & _).
+  apply Exists_exists in Hexok as (m & Hm & Hra). apply elem_sr_ok in Hm as [Hm Hmok]. apply elem_of_mvals in Hm as [rid Hm].
+  assert (Hmm : cur_members h !! rid = Some (r_addr m)) by (rewrite <- HM, lookup_fmap, Hm; done).
+  exists rid. split; [exists h; rewrite Ehi, Hsh, Hra; done|]. rewrite Hsh. intros Hlm.
+  destruct (sr_failed P C c) as [|nf l0] eqn:Ef; [done|]. assert (Hnf : nf ∈ sr_failed P C c) by (rewrite Ef; left).
+  pose proof (Hfl nf ltac:(left)) as Hlf. apply elem_sr_failed in Hnf as [Hnfm Hnff]. apply elem_of_mvals in Hnfm as [rf Hrf].
+  destruct (Hids rf nf Hrf) as [Hidf _]. rewrite Hidf in Hlf. pose proof (lo_one _ _ HK _ _ _ Hlm Hlf) as ->.
+  assert (m = nf) as -> by congruence. unfold replica_ok in Hmok. rewrite Hnff in Hmok. done.
+Qed.
+
+
+(* the round in which the failure of the (single) lost member is detected ends in the class of stage (a) *)
+Theorem lost_round_stagea s0 f0 st st' plogs nticks o :
+  Lost L st → (∀ s f, L s f → s = s0 ∧ f = f0) → L s0 f0 →
+  (∀ a, plogs a = true) → N.of_nat nticks * p_step P < p_ttl P →
+  (∀ s, is_Some (f_hist st !! s) → ∃ a, spare st a s) → o ≠ OCrash →
+  (∀ st4, pre_schedule P plogs nticks st = Some st4 → fresh_ok st4 (ESchedule o)) →
+  p_ttl P < d_tick (f_db st) + N.of_nat nticks * p_step P - mem_tick st s0 f0 →
+  healthy_round P plogs nticks o st = Some st' →
+  StageA L s0 f0 st' ∧ f_hist st' = f_hist st ∧
+  d_tick (f_db st') = d_tick (f_db st) + N.of_nat nticks * p_step P ∧ mem_tick st' s0 f0 = mem_tick st s0 f0.
+Proof.
+  intros HL Hsingle Hl0 Hpl Httl Hsp Hnc Hfr Hover Hr.
+  destruct (lost_round L P Ldec st st' plogs nticks o HL Hpl Httl Hsp Hnc Hfr Hr) as (b & _ & HK1 & Hhi1 & Htk1 & Hmt & Hall & Hcomp).
+  split; [|split; [done|split; [done|by apply Hmt]]].
+  destruct (Hcomp s0 f0 Hl0) as (a & q & Hq & Hia & Hs & Hlc & Hv); [rewrite Htk1; exact Hover|].
+  split.
+  - exact HK1.
+  - intros a' q' Hq'. destruct (Hall a' q' Hq') as [?|(Hia' & Hl' & Hv' & f & Hlf & _)]; [by left|]. right.
+    destruct (Hsingle _ _ Hlf) as [? _]. done.
+  - exact Hsingle.
+  - exact Hl0.
+  - exists a, q. pose proof Hlc as (_ & Hfen & _).
+    destruct (lost_round_proposer st st' plogs nticks o HL Hpl Httl Hsp Hnc Hfr Hr a q Hq Hia Hfen) as (m & Hm & HnL).
+    exists m. rewrite Hs in Hm, HnL. done.
+Qed.
+
+
+(** * the chain: from a Lost state with a single lost member to Mend *)
+Lemma lost_detected_stagea plogs nticks s0 f0 :
+  (∀ a, plogs a = true) → N.of_nat nticks * p_step P < p_ttl P →
+  ∀ os st st', os ≠ [] → Lost L st → (∀ s f, L s f → s = s0 ∧ f = f0) → L s0 f0 →
+  lost_hyps P plogs nticks os st →
+  p_ttl P < d_tick (f_db st) - mem_tick st s0 f0 + N.of_nat (length os) * (N.of_nat nticks * p_step P) →
+  healthy_rounds P plogs nticks os st = Some st' →
+  ∃ os1 os2 st2, os = os1 ++ os2 ∧ StageA L s0 f0 st2 ∧ p_ttl P < d_tick (f_db st2) - mem_tick st2 s0 f0 ∧
+    lost_hyps P plogs nticks os2 st2 ∧ healthy_rounds P plogs nticks os2 st2 = Some st' ∧
+    (length os1 = 1%nat ∨
+     N.of_nat (length os1 - 1) * (N.of_nat nticks * p_step P) + (d_tick (f_db st) - mem_tick st s0 f0) ≤ p_ttl P).
+Proof.
+  intros Hpl Httl. set (delta := N.of_nat nticks * p_step P) in *.
+  induction os as [|o os IH]; intros st st' Hne HL Hsingle Hl0 Hhyp Hbound Hr; [done|].
+  cbn [lost_hyps] in Hhyp. destruct Hhyp as (Hnc & Hsp & Hfr & Hhyp').
+  cbn [healthy_rounds] in Hr. destruct (healthy_round P plogs nticks o st) as [st1|] eqn:E1; [|done].
+  pose proof (lost_mem_tick_le L Ldec st s0 f0 HL) as Hle0.
+  destruct (decide (p_ttl P < d_tick (f_db st) + delta - mem_tick st s0 f0)) as [Hfail|Hwait].
+  - destruct (lost_round_stagea s0 f0 st st1 plogs nticks o HL Hsingle Hl0 Hpl Httl Hsp Hnc Hfr Hfail E1) as (HA & Hhi & Htk & Hmt).
+    exists [o], os, st1. split; [done|]. split; [done|]. split; [rewrite Htk, Hmt; fold delta; lia|]. split; [done|]. split; [done|]. by left.
+  - assert (Hyoung : ∀ s f, L s f → d_tick (f_db st) + delta - mem_tick st s f ≤ p_ttl P).
+    { intros s f Hlf. destruct (Hsingle s f Hlf) as [-> ->]. lia. }
+    destruct (lost_round_wait L P Ldec st st1 plogs nticks o HL Hpl Httl Hsp Hnc Hfr E1 Hyoung) as (HL1 & Hhi1 & Htk1 & Hmt1).
+    destruct os as [|o2 os2]; [cbn [length] in Hbound; lia|].
+    destruct (IH st1 st' ltac:(done) HL1 Hsingle Hl0 Hhyp') as (os1 & os3 & st2 & Hos & HA & Hov & Hh2 & Hr2 & Hb); [|done|].
+    { rewrite (Hmt1 s0 f0 Hl0), Htk1. fold delta. cbn [length] in Hbound |- *. lia. }
+    exists (o :: os1), os3, st2. split; [by rewrite Hos|]. split; [done|]. split; [done|]. split; [done|]. split; [done|].
+    right. cbn [length]. rewrite Nat.sub_succ, Nat.sub_0_r. rewrite (Hmt1 s0 f0 Hl0), Htk1 in Hb. fold delta in Hb.
+    destruct Hb as [->|Hb]; [change (N.of_nat 1) with 1; lia|]. destruct (length os1) as [|k]; [cbn [Nat.sub] in Hb; change (N.of_nat 0) with 0 in *; lia|].
+    cbn [Nat.sub] in Hb. rewrite Nat.sub_0_r in Hb. rewrite Nat2N.inj_succ. nia.
+Qed.
+
+Theorem lost_heal_single_failure plogs nticks s0 f0 os st st' :
+  Lost L st → (∀ s f, L s f → s = s0 ∧ f = f0) → L s0 f0 →
+  (∀ a, plogs a = true) → N.of_nat nticks * p_step P < p_ttl P → (0 < nticks)%nat → 0 < p_step P →
+  lost_hyps P plogs nticks os st →
+  (2 * detect_rounds P nticks + 10 ≤ length os)%nat →
+  healthy_rounds P plogs nticks os st = Some st' →
+  Mend st' ∧ healed P st' = true.
+Proof.
+  intros HL Hsingle Hl0 Hpl Httl Hnt Hstep Hhyp Hlen Hr. set (delta := N.of_nat nticks * p_step P) in *.
+  assert (Hdelta : 0 < delta) by (unfold delta; nia).
+  assert (Hdet : N.of_nat (detect_rounds P nticks) = N.succ (p_ttl P / delta)).
+  { unfold detect_rounds. fold delta. rewrite Nat2N.inj_succ, N2Nat.id. done. }
+  destruct (lost_detected_stagea plogs nticks s0 f0 Hpl Httl os st st') as (os1 & os2 & st2 & -> & HA & Hov & Hh2 & Hr2 & Hb); try done.
+  { intros ->. cbn in Hlen. lia. }
+  { fold delta. pose proof (N.mul_succ_div_gt (p_ttl P) delta ltac:(lia)) as Hgt.
+    assert (N.succ (p_ttl P / delta) ≤ N.of_nat (length os)) by lia. nia. }
+  assert (Hl1 : (length os1 ≤ detect_rounds P nticks)%nat).
+  { destruct Hb as [->|Hb]; [unfold detect_rounds; lia|]. fold delta in Hb.
+    assert (N.of_nat (length os1 - 1) ≤ p_ttl P / delta) by (apply N.div_le_lower_bound; [lia|nia]). lia. }
+  rewrite app_length in Hlen.
+  destruct os2 as [|oa [|ob [|oc [|od [|oe [|og os3]]]]]]; cbn [length] in Hlen; try lia.
+  assert (Hle : N.of_nat nticks * p_step P ≤ p_ttl P) by (fold delta; lia).
+  cbn [lost_hyps] in Hh2. cbn [healthy_rounds] in Hr2.
+  destruct Hh2 as (Hnca & Hspa & Hfra & Hh2).
+  destruct (healthy_round P plogs nticks oa st2) as [sta|] eqn:Ea; [|done].
+  destruct (lost_stage_add_applied L P Ldec s0 f0 st2 sta plogs nticks oa HA Hpl Httl Hspa Hnca Hfra Ea) as (ba & _ & HB & Htka & _ & Hmta).
+  destruct Hh2 as (Hncb & Hspb & Hfrb & Hh2).
+  destruct (healthy_round P plogs nticks ob sta) as [stb|] eqn:Eb; [|done].
+  destruct (lost_stage_join L P Ldec s0 f0 sta stb plogs nticks ob HB Hpl Httl Hspb Hncb Hfrb Eb) as (bb & x & t & _ & HC & _ & Htkb & Hmtb).
+  destruct Hh2 as (Hncc & Hspc & Hfrc & Hh2).
+  destruct (healthy_round P plogs nticks oc stb) as [stc|] eqn:Ec; [|done].
+  destruct (lost_stage_join_started L P Ldec s0 f0 x t stb stc plogs nticks oc HC Hpl Httl Hspc Hncc Hfrc Ec) as (bc & _ & HD & _ & Htkc & Hmtc).
+  destruct Hh2 as (Hncd & Hspd & Hfrd & Hh2).
+  destruct (healthy_round P plogs nticks od stc) as [std|] eqn:Ed; [|done].
+  assert (Hovd : p_ttl P < d_tick (f_db stc) - mem_tick stc s0 f0) by (rewrite Hmtc, Hmtb, Hmta, Htkc, Htkb, Htka; fold delta; lia).
+  destruct (lost_stage_delete L P Ldec s0 f0 x t stc std plogs nticks od HD Hpl Httl Hspd Hncd Hfrd Hovd Ed) as (bd & _ & HE & _ & Htkd).
+  destruct Hh2 as (Hnce & Hspe & Hfre & Hh2).
+  destruct (healthy_round P plogs nticks oe std) as [ste|] eqn:Ee; [|done].
+  destruct (lost_stage_delete_applied s0 f0 x t std ste plogs nticks oe HE Hpl Httl Hspe Hnce Hfre Ee) as (be & _ & HMB & Hinert & _).
+  destruct (healthy_round P plogs nticks og ste) as [stg|] eqn:Eg; [|done].
+  destruct (mendb_inert_round P ste stg plogs nticks og HMB Hinert Hpl Hle Eg) as (bg & _ & _ & HMg).
+  apply (mend_heal_ge P plogs nticks Hpl Hle os3 stg st' HMg Hnt Hstep); [lia|done].
+Qed.
+
+End StageDel.
